@@ -94,7 +94,7 @@ Record InvA (C : cfg) (s : state) : Prop := {
   a_lock1 : forall j, s_lock s = Some j -> j_ph (s_jobs s j) = Creating /\ (j < c_n C)%nat;
   a_lock2 : forall j, j_ph (s_jobs s j) = Creating -> s_lock s = Some j;
   a_disk : forall k, s_disk s k <> Absent -> (k < c_n C)%nat /\ active (j_ph (s_jobs s k));
-  a_empty1 : forall k, s_disk s k = Empty -> j_ph (s_jobs s k) = Creating;
+  a_empty1 : forall k, s_disk s k = Empty -> j_ph (s_jobs s k) = Creating \/ j_ph (s_jobs s k) = Ended;
   a_empty2 : forall k, j_ph (s_jobs s k) = Creating -> s_disk s k = Empty;
   a_written : forall k c, s_disk s k = Written c -> c = c_cnt C k;
   a_hold : forall k, j_ph (s_jobs s k) = Holding \/ j_ph (s_jobs s k) = Running -> exists c, s_disk s k = Written c;
@@ -104,21 +104,31 @@ Record InvA (C : cfg) (s : state) : Prop := {
 Definition cache_good (C : cfg) (pr : proc) : Prop :=
   forall k c, p_cache pr k = Some c -> c = c_cnt C k /\ (k < c_n C)%nat.
 
+(* _update on a directory it can parse (no unparsable file outside its cache): every file
+   present is counted for the request of its job *)
+Lemma parsable_at C s pr k : parsable C s pr = true -> (k < c_n C)%nat -> s_disk s k = Empty -> p_cache pr k <> None.
+Proof.
+  intros P Hk D. unfold parsable in P. rewrite forallb_forall in P.
+  specialize (P k). rewrite D in P. destruct (p_cache pr k); [congruence|].
+  assert (false = true); [|discriminate]. apply P. apply in_seq. lia.
+Qed.
+
 Lemma recount_cache_spec C s pr k :
-  InvA C s -> s_lock s = None -> cache_good C pr ->
-  recount_cache s pr k = match s_disk s k with Written _ => Some (c_cnt C k) | _ => None end.
+  InvA C s -> parsable C s pr = true -> cache_good C pr ->
+  recount_cache s pr k = match s_disk s k with Absent => None | _ => Some (c_cnt C k) end.
 Proof.
   intros I L G. unfold recount_cache. destruct (s_disk s k) eqn:D; auto.
-  - apply (a_empty1 _ _ I) in D. apply (a_lock2 _ _ I) in D. congruence.
+  - assert (Hk : (k < c_n C)%nat) by (apply (a_disk _ _ I); congruence).
+    assert (N := parsable_at C s pr k L Hk D). destruct (p_cache pr k) eqn:E; [|congruence].
+    apply G in E. destruct E; subst; auto.
   - apply (a_written _ _ I) in D. subst. destruct (p_cache pr k) eqn:E; auto.
     apply G in E. destruct E; subst; auto.
 Qed.
 
-Lemma recount_good C s pr : InvA C s -> s_lock s = None -> cache_good C pr -> cache_good C (recount C s pr).
+Lemma recount_good C s pr : InvA C s -> parsable C s pr = true -> cache_good C pr -> cache_good C (recount C s pr).
 Proof.
   intros I L G k c H. unfold recount in H; simpl in H. rewrite (recount_cache_spec C s pr k I L G) in H.
-  destruct (s_disk s k) eqn:D; try discriminate. inversion H; subst. split; auto.
-  apply (a_disk _ _ I). congruence.
+  destruct (s_disk s k) eqn:D; try discriminate; inversion H; subst; (split; auto; apply (a_disk _ _ I); congruence).
 Qed.
 
 Opaque recount notify emit parsable.
@@ -132,6 +142,11 @@ Qed.
 Ltac open_guard H :=
   match type of H with
   | (if ?b then _ else None) = Some _ => let G := fresh "G" in destruct b eqn:G; [|discriminate H]
+  end.
+Ltac open_start H tac :=
+  match type of H with
+  | (if ?b then _ else if ?c then _ else None) = Some _ =>
+      let G := fresh "G" in destruct b eqn:G; [| destruct c; [inversion H; subst; clear H; tac | discriminate H]]
   end.
 Ltac split_and G := repeat (rewrite andb_true_iff in G; let G' := fresh "G" in destruct G as [G G']).
 
@@ -174,28 +189,51 @@ Lemma invA_phase C s s' j ph :
   InvA C s -> s_lock s' = s_lock s -> s_disk s' = s_disk s ->
   (forall k, k <> j -> j_ph (s_jobs s' k) = j_ph (s_jobs s k)) ->
   j_ph (s_jobs s' j) = ph ->
-  ((j_ph (s_jobs s j) = Holding /\ ph = Running) \/ (j_ph (s_jobs s j) = Running /\ ph = Ended)) ->
+  ((j_ph (s_jobs s j) = Holding /\ ph = Running) \/ (j_ph (s_jobs s j) = Running /\ ph = Ended) \/
+   (j_ph (s_jobs s j) = Done /\ ph = Idle)) ->
   (forall q, cache_good C (s_procs s' q)) -> InvA C s'.
 Proof.
   intros I L D P Pj T G. named; rewrite ?L, ?D in *.
   - destruct (a_lock1 _ _ I _ HL). split; auto. destruct (Nat.eq_dec j0 j); subst; [|rewrite P; auto].
-    destruct T as [[T1 T2]|[T1 T2]]; congruence.
+    destruct T as [[T1 T2]|[[T1 T2]|[T1 T2]]]; congruence.
   - apply (a_lock2 _ _ I). destruct (Nat.eq_dec j0 j); subst; [|rewrite <- P; auto].
-    destruct T as [[T1 T2]|[T1 T2]]; congruence.
-  - destruct (a_disk _ _ I _ HD). split; auto. destruct (Nat.eq_dec k j); subst; [|rewrite P; auto].
-    destruct T as [[T1 T2]|[T1 T2]]; subst; rewrite T2; unfold active; auto.
+    destruct T as [[T1 T2]|[[T1 T2]|[T1 T2]]]; congruence.
+  - destruct (a_disk _ _ I _ HD) as [HK HA]. split; auto. destruct (Nat.eq_dec k j); subst; [|rewrite P; auto].
+    destruct T as [[T1 T2]|[[T1 T2]|[T1 T2]]]; subst; try (rewrite T2; unfold active; auto; fail).
+    rewrite T1 in HA. unfold active in HA. repeat (destruct HA as [HA|HA]; try discriminate).
   - apply (a_empty1 _ _ I) in HD. destruct (Nat.eq_dec k j); subst; [|rewrite P; auto].
-    destruct T as [[T1 T2]|[T1 T2]]; congruence.
+    destruct T as [[T1 T2]|[[T1 T2]|[T1 T2]]]; destruct HD; congruence.
   - apply (a_empty2 _ _ I). destruct (Nat.eq_dec k j); subst; [|rewrite <- P; auto].
-    destruct T as [[T1 T2]|[T1 T2]]; congruence.
+    destruct T as [[T1 T2]|[[T1 T2]|[T1 T2]]]; congruence.
   - eapply a_written; eauto.
   - apply (a_hold _ _ I). destruct (Nat.eq_dec k j); subst; [|rewrite <- P; auto].
-    destruct T as [[T1 T2]|[T1 T2]]; auto.
+    destruct T as [[T1 T2]|[[T1 T2]|[T1 T2]]]; auto. rewrite T2 in HP. destruct HP; discriminate.
   - eapply G; eauto.
 Qed.
 
 
-(* a file disappears whose job is neither creating it nor holding/running *)
+(* files disappear whose jobs are neither creating them nor holding/running *)
+Lemma invA_delete_many C s s' (del : nat -> Prop) :
+  InvA C s -> s_lock s' = s_lock s ->
+  (forall k, ~ del k -> s_disk s' k = s_disk s k) -> (forall k, del k -> s_disk s' k = Absent) ->
+  (forall k, ~ del k -> j_ph (s_jobs s' k) = j_ph (s_jobs s k)) ->
+  (forall k, del k -> j_ph (s_jobs s' k) = Idle \/ j_ph (s_jobs s' k) = Done \/ j_ph (s_jobs s' k) = Ended) ->
+  (forall k, del k -> j_ph (s_jobs s k) <> Creating) ->
+  (forall k, del k \/ ~ del k) ->
+  (forall q, cache_good C (s_procs s' q)) -> InvA C s'.
+Proof.
+  intros I L D Dj P Pj NC DEC G. named; rewrite ?L in *.
+  - destruct (a_lock1 _ _ I _ HL). split; auto. destruct (DEC j0) as [E|E]; [exfalso; eapply NC; eauto|rewrite P; auto].
+  - apply (a_lock2 _ _ I). destruct (DEC j0) as [E|E]; [|rewrite <- P; auto].
+    destruct (Pj _ E) as [X|[X|X]]; congruence.
+  - destruct (DEC k) as [E|E]; [rewrite Dj in HD by auto; congruence|]. rewrite D in HD by auto. rewrite P by auto. apply (a_disk _ _ I); auto.
+  - destruct (DEC k) as [E|E]; [rewrite Dj in HD by auto; congruence|]. rewrite D in HD by auto. rewrite P by auto. apply (a_empty1 _ _ I); auto.
+  - destruct (DEC k) as [E|E]; [destruct (Pj _ E) as [X|[X|X]]; congruence|]. rewrite D by auto. rewrite P in HP by auto. apply (a_empty2 _ _ I); auto.
+  - destruct (DEC k) as [E|E]; [rewrite Dj in HD by auto; congruence|]. rewrite D in HD by auto. eapply a_written; eauto.
+  - destruct (DEC k) as [E|E]; [destruct (Pj _ E) as [X|[X|X]]; destruct HP; congruence|]. rewrite D by auto. rewrite P in HP by auto. apply (a_hold _ _ I); auto.
+  - eapply G; eauto.
+Qed.
+
 Lemma invA_delete C s s' j :
   InvA C s -> s_lock s' = s_lock s ->
   (forall k, k <> j -> s_disk s' k = s_disk s k) -> s_disk s' j = Absent ->
@@ -204,16 +242,12 @@ Lemma invA_delete C s s' j :
   (j_ph (s_jobs s j) <> Creating) ->
   (forall q, cache_good C (s_procs s' q)) -> InvA C s'.
 Proof.
-  intros I L D Dj P Pj NC G. named; rewrite ?L in *.
-  - destruct (a_lock1 _ _ I _ HL). split; auto. destruct (Nat.eq_dec j0 j); subst; [congruence|rewrite P; auto].
-  - apply (a_lock2 _ _ I). destruct (Nat.eq_dec j0 j); subst; [|rewrite <- P; auto].
-    destruct Pj as [E|[E|E]]; congruence.
-  - destruct (Nat.eq_dec k j); subst; [congruence|]. rewrite D in HD by auto. rewrite P by auto. apply (a_disk _ _ I); auto.
-  - destruct (Nat.eq_dec k j); subst; [congruence|]. rewrite D in HD by auto. rewrite P by auto. apply (a_empty1 _ _ I); auto.
-  - destruct (Nat.eq_dec k j); subst; [destruct Pj as [E|[E|E]]; congruence|]. rewrite D by auto. rewrite P in HP by auto. apply (a_empty2 _ _ I); auto.
-  - destruct (Nat.eq_dec k j); subst; [congruence|]. rewrite D in HD by auto. eapply a_written; eauto.
-  - destruct (Nat.eq_dec k j); subst; [destruct Pj as [E|[E|E]]; destruct HP; congruence|]. rewrite D by auto. rewrite P in HP by auto. apply (a_hold _ _ I); auto.
-  - eapply G; eauto.
+  intros I L D Dj P Pj NC G.
+  apply (invA_delete_many C s s' (fun k => k = j)); auto.
+  - intros k ->. auto.
+  - intros k ->. auto.
+  - intros k ->. auto.
+  - intros k. destruct (Nat.eq_dec k j); auto.
 Qed.
 
 Lemma good_all C s : InvA C s -> forall q, cache_good C (s_procs s q).
@@ -282,32 +316,46 @@ Proof.
   - rewrite (l_pid _ L n P) in H2. simpl in H2. discriminate.
 Qed.
 
-Lemma invA_step1 V C s l s' r : InvL s -> InvA C s -> step1 V C s l = Some (s', r) -> InvA C s'.
+Lemma invA_core V C s l s' r : v_fire V = true -> InvL s -> InvA C s -> core V C s l = Some (s', r) -> InvA C s'.
 Proof.
-  intros IL I H. destruct l; simpl in H.
+  intros VFI IL I H. destruct l; simpl in H.
   - (* Start *)
-    open_guard H. split_and G. inversion H; subst; clear H. apply lock_free_None in G1.
+    open_start H ltac:(assumption). split_and G. inversion H; subst; clear H. apply lock_free_None in G1.
     apply (invA_same C s); auto; simpl.
     + intros j. destruct (_ && _ && _); reflexivity.
     + apply good_upd; [apply good_all; auto|]. apply recount_good; auto. intros k c Hc; discriminate.
   - (* Kill *)
-    open_guard H. split_and G. inversion H; subst; clear H.
+    open_guard H. inversion H; subst; clear H.
     match goal with |- InvA C (mkS _ _ _ ?J) => set (jobs' := J) end.
-    assert (PH : forall j, j_ph (jobs' j) = j_ph (s_jobs s j) \/ (j_ph (s_jobs s j) = Holding /\ j_ph (jobs' j) = Ended)).
-    { intros j. unfold jobs'. destruct (s_jobs s j) as [ph ok orph lk pd]. simpl. destruct (_ && _); auto. destruct ph; simpl; auto. }
+    assert (PH : forall j, j_ph (jobs' j) = j_ph (s_jobs s j) \/ (j_ph (s_jobs s j) = Holding /\ j_ph (jobs' j) = Ended) \/
+                           (j_ph (s_jobs s j) = Creating /\ j_ph (jobs' j) = Ended /\ c_owner C j = p)).
+    { intros j. unfold jobs'. destruct (s_jobs s j) as [ph ok orph lk pd]. simpl.
+      destruct (Nat.eqb_spec (c_owner C j) p); simpl; auto.
+      destruct ph; simpl; destruct (negb orph); simpl; auto. }
+    assert (PC : forall j, j_ph (s_jobs s j) = Creating -> c_owner C j = p -> j_ph (jobs' j) = Ended).
+    { intros j Hc Ho. unfold jobs'. destruct (s_jobs s j) as [ph ok orph lk pd]. simpl in *. subst ph.
+      rewrite Ho, Nat.eqb_refl. simpl. rewrite orb_true_r. reflexivity. }
     named.
-    + destruct (a_lock1 _ _ I _ HL). split; auto. destruct (PH j0) as [E|[E1 E2]]; simpl in *; congruence.
-    + apply (a_lock2 _ _ I). destruct (PH j0) as [E|[E1 E2]]; simpl in *; congruence.
-    + destruct (a_disk _ _ I _ HD). split; auto. destruct (PH k) as [E|[E1 E2]]; simpl in *; [rewrite E; auto|rewrite E2; unfold active; auto].
-    + apply (a_empty1 _ _ I) in HD. destruct (PH k) as [E|[E1 E2]]; simpl in *; congruence.
-    + apply (a_empty2 _ _ I). destruct (PH k) as [E|[E1 E2]]; simpl in *; congruence.
+    + unfold not_creating in HL. destruct (s_lock s) as [j1|] eqn:LK; [|discriminate].
+      destruct (Nat.eqb_spec (c_owner C j1) p); simpl in HL; [discriminate|]. inversion HL; subst.
+      destruct (a_lock1 _ _ I _ LK). split; auto.
+      destruct (PH j0) as [E|[[E1 E2]|[E1 [E2 E3]]]]; simpl in *; congruence.
+    + destruct (PH j0) as [E|[[E1 E2]|[E1 [E2 E3]]]]; simpl in *; try congruence.
+      rewrite E in HP. assert (LK := a_lock2 _ _ I _ HP). unfold not_creating. rewrite LK.
+      destruct (Nat.eqb_spec (c_owner C j0) p); simpl; auto.
+      rewrite (PC j0 HP e) in E. congruence.
+    + destruct (a_disk _ _ I _ HD). split; auto.
+      destruct (PH k) as [E|[[E1 E2]|[E1 [E2 E3]]]]; simpl in *; [rewrite E; auto|rewrite E2; unfold active; auto|rewrite E2; unfold active; auto].
+    + destruct (a_empty1 _ _ I _ HD) as [X|X]; destruct (PH k) as [E|[[E1 E2]|[E1 [E2 E3]]]]; simpl in *; try congruence; auto;
+      [left; congruence|right; congruence].
+    + destruct (PH k) as [E|[[E1 E2]|[E1 [E2 E3]]]]; simpl in *; try congruence. apply (a_empty2 _ _ I). congruence.
     + eapply a_written; eauto.
-    + apply (a_hold _ _ I). destruct (PH k) as [E|[E1 E2]]; simpl in *; [rewrite <- E; auto|]. rewrite E2 in HP. destruct HP; discriminate.
+    + apply (a_hold _ _ I). destruct (PH k) as [E|[[E1 E2]|[E1 [E2 E3]]]]; simpl in *; [rewrite <- E; auto| |]; rewrite E2 in HP; destruct HP; discriminate.
     + cu HC; [discriminate|]. eapply a_cache; eauto.
   - (* Acquire *)
     open_guard H. split_and G.
     apply lock_free_None in G1. apply Nat.ltb_lt in G6. apply Nat.eqb_eq in G5.
-    assert (RG := recount_good C s _ I G1 (good_all C s I p)).
+    assert (RG := recount_good C s _ I G0 (good_all C s I p)).
     assert (Hidle : j_ph (s_jobs s j) = Idle) by (destruct (j_ph (s_jobs s j)); simpl in G4; congruence).
     destruct (_ <? _) eqn:LT; inversion H; subst; clear H.
     + (* lock error *)
@@ -326,6 +374,7 @@ Proof.
         cu HC. { inversion HC; subst; auto. } eapply RG; eauto.
   - (* WriteF *)
     destruct (s_lock s) eqn:L; try discriminate. destruct (Nat.eqb_spec j n); try discriminate. subst.
+    rewrite (a_empty2 _ _ I n (proj1 (a_lock1 _ _ I n L))) in H. cbn [is_present] in H.
     inversion H; subst; clear H. destruct (a_lock1 _ _ I n L) as [Hc Hn].
     named.
     + discriminate.
@@ -360,15 +409,16 @@ Proof.
   - (* Release *)
     destruct (match j_ph (s_jobs s j) with Holding => Some Idle | Ended => Some Done | _ => None end) as [ph'|] eqn:NP; try discriminate.
     open_guard H. split_and G. apply lock_free_None in G1. apply Nat.eqb_eq in G3. subst p.
-    assert (RG := recount_good C s _ I G1 (good_all C s I (c_owner C j))).
-    assert (RS := recount_cache_spec C s (s_procs s (c_owner C j)) j I G1 (good_all C s I _)).
+    assert (RG := recount_good C s _ I G0 (good_all C s I (c_owner C j))).
+    assert (RS := recount_cache_spec C s (s_procs s (c_owner C j)) j I G0 (good_all C s I _)).
     assert (PJ : (j_ph (s_jobs s j) = Holding /\ ph' = Idle) \/ (j_ph (s_jobs s j) = Ended /\ ph' = Done)).
     { destruct (j_ph (s_jobs s j)); inversion NP; auto. }
     assert (NC : j_ph (s_jobs s j) <> Creating) by (destruct PJ as [[E _]|[E _]]; congruence).
     assert (PJ' : ph' = Idle \/ ph' = Done \/ ph' = Ended) by (destruct PJ as [[_ E]|[_ E]]; auto).
     change (recount_cache s (s_procs s (c_owner C j)) j) with (p_cache (recount C s (s_procs s (c_owner C j))) j) in RS.
     destruct (p_cache (recount C s (s_procs s (c_owner C j))) j) eqn:PC.
-    + destruct (s_disk s j) eqn:DJ; try discriminate. simpl in H. inversion H; subst; clear H.
+    + assert (PRS : is_present (s_disk s j) = true) by (destruct (s_disk s j); simpl; congruence).
+      rewrite PRS in H. inversion H; subst; clear H.
       apply (invA_delete C s _ j); auto; simpl.
       * intros k Hk. apply upd_other; auto.
       * apply upd_same.
@@ -378,8 +428,7 @@ Proof.
         intros k c9 Hc. simpl in Hc. cu Hc; [discriminate|]. eapply RG; eauto.
     + inversion H; subst; clear H.
       assert (DJ : s_disk s j = Absent).
-      { destruct (s_disk s j) eqn:DJ; auto; try discriminate.
-        apply (a_empty1 _ _ I) in DJ. congruence. }
+      { destruct (s_disk s j) eqn:DJ; auto; discriminate. }
       apply (invA_delete C s _ j); auto; simpl.
       * intros k Hk. destruct (v_notify V); rewrite ?notify_ph; rewrite upd_other; auto.
       * destruct (v_notify V); rewrite ?notify_ph; rewrite upd_same; simpl; auto.
@@ -434,6 +483,7 @@ Proof.
     assert (GP : forall q, cache_good C (upd (s_procs s) p (mkProc (p_alive (s_procs s p)) (p_avail (s_procs s p)) (p_cache (s_procs s p))
                    (p_obs (s_procs s p)) (p_evq (s_procs s p)) (remove_first n (p_wat (s_procs s p)))) q)).
     { apply good_upd; auto. intros k c Hc. apply (GA p k c Hc). }
+    rewrite VFI in H.
     destruct (is_present (s_disk s n)) eqn:PR; inversion H; subst; clear H.
     + apply (invA_delete C s _ n); auto; simpl.
       * intros k Hk. apply upd_other; auto.
@@ -442,6 +492,15 @@ Proof.
       * apply good_emit; auto.
     + apply (invA_same C s); auto.
   - discriminate.
+  - (* FireDelete: only in the pinned watcher *)
+    rewrite VFI in H. simpl in H. discriminate.
+  - (* Resubmit *)
+    destruct (j_ph (s_jobs s j)) eqn:P; try discriminate. open_guard H.
+    inversion H; subst; clear H.
+    apply (invA_phase C s _ j Idle); auto; simpl.
+    + intros k Hk. rewrite upd_other; auto.
+    + rewrite upd_same. reflexivity.
+    + apply good_all; auto.
 Qed.
 
 Lemma good_emit_except C p ev (procs : nat -> proc) :
@@ -471,20 +530,21 @@ Proof.
   destruct (is_present (s_disk s n)); inversion H; subst; reflexivity.
 Qed.
 
-Lemma invL_step1 V C s l s' r : InvA C s -> InvL s -> step1 V C s l = Some (s', r) -> InvL s'.
+Lemma invL_core V C s l s' r : InvA C s -> InvL s -> core V C s l = Some (s', r) -> InvL s'.
 Proof.
   intros I L H. apply (invL_jobs s s' L). intros j0. destruct l; simpl in H.
-  - open_guard H. inversion H; subst; clear H. simpl.
+  - open_start H ltac:(left; reflexivity). inversion H; subst; clear H. simpl.
     match goal with |- context[if ?b then _ else _] => destruct b end; [right; left; simpl; auto|left; reflexivity].
   - open_guard H. inversion H; subst; clear H. simpl.
     destruct (s_jobs s j0) as [ph ok orph lk pd] eqn:E. simpl.
     match goal with |- context[if ?b then _ else _] => destruct b end; auto.
     destruct ph; simpl;
-      [left; reflexivity | left; reflexivity | do 5 right; auto | right; left; auto | right; left; auto | left; reflexivity].
+      [left; reflexivity | do 5 right; auto | do 5 right; auto | right; left; auto | right; left; auto | left; reflexivity].
   - open_guard H. destruct (_ <? _); inversion H; subst; clear H; simpl.
     + unfold upd. destruct (Nat.eqb_spec j0 j); subst; auto; right; left; simpl; auto.
     + unfold upd. destruct (Nat.eqb_spec j0 j); subst; auto; right; right; left; simpl; auto.
   - destruct (s_lock s) eqn:LK; try discriminate. destruct (Nat.eqb_spec j n); try discriminate. subst.
+    rewrite (a_empty2 _ _ I n (proj1 (a_lock1 _ _ I n LK))) in H. cbn [is_present] in H.
     inversion H; subst; clear H. simpl. unfold upd. destruct (Nat.eqb_spec j0 n); subst; auto.
     destruct (a_lock1 _ _ I n LK) as [P _]. do 3 right. left. simpl. auto.
   - destruct (j_ph (s_jobs s j)) eqn:P; try discriminate. destruct (j_orph (s_jobs s j)); try discriminate.
@@ -521,8 +581,12 @@ Proof.
         | (if ?x then _ else _) = _ => destruct x end; inversion H; subst; simpl; auto.
       right. rewrite notify_ph, notify_lock, notify_pid. auto. }
     destruct D as [D|D]; auto.
-  - open_guard H. destruct (is_present (s_disk s n)); inversion H; subst; auto.
+  - open_guard H. destruct (v_fire V); [destruct (is_present (s_disk s n))|]; inversion H; subst; auto.
   - discriminate.
+  - open_guard H. destruct (is_present (s_disk s n)); inversion H; subst; auto.
+  - destruct (j_ph (s_jobs s j)) eqn:P; try discriminate. open_guard H.
+    inversion H; subst; clear H. simpl. unfold upd. destruct (Nat.eqb_spec j0 j); subst; auto.
+    do 5 right. simpl. auto.
 Qed.
 
 (* ====== part B: capacity *)
@@ -530,13 +594,12 @@ Definition cnt_nonneg (C : cfg) : Prop := forall j, 0 <= c_cnt C j.
 
 Transparent recount.
 Lemma recount_avail C s pr :
-  InvA C s -> s_lock s = None -> cache_good C pr ->
+  InvA C s -> parsable C s pr = true -> cache_good C pr ->
   p_avail (recount C s pr) = c_total C - held_sum C s.
 Proof.
   intros I L G. unfold recount, held_sum; simpl. f_equal. apply sumf_ext. intros k Hk.
   rewrite (recount_cache_spec C s pr k I L G). unfold held.
   destruct (s_disk s k) eqn:D; simpl; auto.
-  apply (a_empty1 _ _ I) in D. apply (a_lock2 _ _ I) in D. congruence.
 Qed.
 Lemma recount_cache_eq C s pr k : p_cache (recount C s pr) k = recount_cache s pr k.
 Proof. reflexivity. Qed.
@@ -570,21 +633,22 @@ Proof.
     destruct H; rewrite H in A; repeat (destruct A as [A|A]; try discriminate).
 Qed.
 
-Lemma cap_step1 V C s l s' r :
-  cnt_nonneg C -> InvA C s -> held_sum C s <= c_total C -> step1 V C s l = Some (s', r) -> held_sum C s' <= c_total C.
+Lemma cap_core V C s l s' r :
+  cnt_nonneg C -> InvA C s -> held_sum C s <= c_total C -> core V C s l = Some (s', r) -> held_sum C s' <= c_total C.
 Proof.
   intros NN I Hc H. destruct l; simpl in H.
-  - open_guard H. inversion H; subst. rewrite (held_sum_same C s); auto.
+  - open_start H ltac:(assumption). inversion H; subst. rewrite (held_sum_same C s); auto.
   - open_guard H. inversion H; subst. rewrite (held_sum_same C s); auto.
   - open_guard H. split_and G. apply lock_free_None in G1. apply Nat.ltb_lt in G6.
     assert (Hidle : j_ph (s_jobs s j) = Idle) by (destruct (j_ph (s_jobs s j)); simpl in G4; congruence).
-    rewrite (recount_avail C s _ I G1 (good_all C s I p)) in H.
+    rewrite (recount_avail C s _ I G0 (good_all C s I p)) in H.
     destruct (_ <? _) eqn:LT; inversion H; subst; clear H.
     + rewrite (held_sum_same C s); auto.
     + rewrite (held_sum_set C s _ j); simpl; auto.
       * unfold held; simpl. rewrite upd_same. rewrite (idle_absent C s j I) by auto. lia.
       * intros k Hk. apply upd_other; auto.
   - destruct (s_lock s) eqn:L; try discriminate. destruct (Nat.eqb_spec j n); try discriminate. subst.
+    rewrite (a_empty2 _ _ I n (proj1 (a_lock1 _ _ I n L))) in H. cbn [is_present] in H.
     inversion H; subst; clear H. destruct (a_lock1 _ _ I n L) as [Hp Hn].
     rewrite (held_sum_set C s _ n); simpl; auto.
     + unfold held; simpl. rewrite upd_same. rewrite (a_empty2 _ _ I n Hp). lia.
@@ -615,7 +679,8 @@ Proof.
         | match ?x with _ => _ end = _ => destruct x
         | (if ?x then _ else _) = _ => destruct x end; inversion H; subst; reflexivity. }
     rewrite (held_sum_same C s); auto.
-  - open_guard H. destruct (is_present (s_disk s n)) eqn:PR; inversion H; subst; clear H.
+  - open_guard H. destruct (v_fire V); [|inversion H; subst; rewrite (held_sum_same C s); auto].
+    destruct (is_present (s_disk s n)) eqn:PR; inversion H; subst; clear H.
     + assert (s_disk s n <> Absent) by (destruct (s_disk s n); simpl in PR; congruence).
       apply (a_disk _ _ I) in H. destruct H as [Hn _].
       rewrite (held_sum_set C s _ n); simpl; auto.
@@ -623,6 +688,15 @@ Proof.
       * intros k Hk. apply upd_other; auto.
     + rewrite (held_sum_same C s); auto.
   - discriminate.
+  - open_guard H. destruct (is_present (s_disk s n)) eqn:PR; inversion H; subst; clear H.
+    + assert (s_disk s n <> Absent) by (destruct (s_disk s n); simpl in PR; congruence).
+      apply (a_disk _ _ I) in H. destruct H as [Hn _].
+      rewrite (held_sum_set C s _ n); simpl; auto.
+      * unfold held; simpl. rewrite upd_same. specialize (NN n). destruct (s_disk s n); lia.
+      * intros k Hk. apply upd_other; auto.
+    + rewrite (held_sum_same C s); auto.
+  - destruct (j_ph (s_jobs s j)); try discriminate. open_guard H.
+    inversion H; subst. rewrite (held_sum_same C s); auto.
 Qed.
 
 Lemma cap_silent C s p n s' r :
@@ -638,17 +712,142 @@ Proof.
   - rewrite (held_sum_same C s); auto.
 Qed.
 
+(* ---- _update's sweep of half-created files *)
+Lemma emit_list_alive evs : forall procs q, p_alive (emit_list evs procs q) = p_alive (procs q).
+Proof. induction evs; simpl; intros; auto. rewrite IHevs. apply emit_alive. Qed.
+Lemma emit_list_avail evs : forall procs q, p_avail (emit_list evs procs q) = p_avail (procs q).
+Proof. induction evs; simpl; intros; auto. rewrite IHevs. apply emit_avail. Qed.
+Lemma emit_list_cache evs : forall procs q, p_cache (emit_list evs procs q) = p_cache (procs q).
+Proof. induction evs; simpl; intros; auto. rewrite IHevs. apply emit_cache. Qed.
+Lemma emit_list_obs evs : forall procs q, p_obs (emit_list evs procs q) = p_obs (procs q).
+Proof. induction evs; simpl; intros; auto. rewrite IHevs. apply emit_obs. Qed.
+Lemma emit_list_wat evs : forall procs q, p_wat (emit_list evs procs q) = p_wat (procs q).
+Proof. induction evs; simpl; intros; auto. rewrite IHevs. apply emit_wat. Qed.
+Lemma emit_list_evq_In evs : forall procs q e, In e (p_evq (procs q)) -> In e (p_evq (emit_list evs procs q)).
+Proof.
+  induction evs; simpl; intros; auto. apply IHevs. rewrite emit_evq. destruct (_ && _); auto. apply in_or_app; auto.
+Qed.
+Lemma emit_list_evq_dead evs : forall procs q, p_alive (procs q) = false -> p_evq (emit_list evs procs q) = p_evq (procs q).
+Proof.
+  induction evs; simpl; intros; auto. rewrite IHevs; [|rewrite emit_alive; auto]. rewrite emit_evq, H. reflexivity.
+Qed.
+
+Lemma sweep_lock V C s pr : s_lock (sweep V C s pr) = s_lock s.
+Proof. unfold sweep. destruct (_ && _); reflexivity. Qed.
+Lemma sweep_jobs V C s pr : s_jobs (sweep V C s pr) = s_jobs s.
+Proof. unfold sweep. destruct (_ && _); reflexivity. Qed.
+Lemma sweep_alive V C s pr q : p_alive (s_procs (sweep V C s pr) q) = p_alive (s_procs s q).
+Proof. unfold sweep. destruct (_ && _); simpl; auto. apply emit_list_alive. Qed.
+Lemma sweep_avail V C s pr q : p_avail (s_procs (sweep V C s pr) q) = p_avail (s_procs s q).
+Proof. unfold sweep. destruct (_ && _); simpl; auto. apply emit_list_avail. Qed.
+Lemma sweep_cache V C s pr q : p_cache (s_procs (sweep V C s pr) q) = p_cache (s_procs s q).
+Proof. unfold sweep. destruct (_ && _); simpl; auto. apply emit_list_cache. Qed.
+Lemma sweep_obs V C s pr q : p_obs (s_procs (sweep V C s pr) q) = p_obs (s_procs s q).
+Proof. unfold sweep. destruct (_ && _); simpl; auto. apply emit_list_obs. Qed.
+Lemma sweep_wat V C s pr q : p_wat (s_procs (sweep V C s pr) q) = p_wat (s_procs s q).
+Proof. unfold sweep. destruct (_ && _); simpl; auto. apply emit_list_wat. Qed.
+Lemma sweep_evq_In V C s pr q e : In e (p_evq (s_procs s q)) -> In e (p_evq (s_procs (sweep V C s pr) q)).
+Proof. unfold sweep. destruct (_ && _); simpl; auto. apply emit_list_evq_In. Qed.
+Lemma sweep_disk V C s pr k :
+  s_disk (sweep V C s pr) k = s_disk s k \/
+  (s_disk (sweep V C s pr) k = Absent /\ s_disk s k = Empty /\ p_cache pr k = None /\ s_lock s = None).
+Proof.
+  unfold sweep. destruct (v_empty V && lock_free s) eqn:G; auto. simpl.
+  apply andb_true_iff in G. destruct G as [_ G]. apply lock_free_None in G.
+  unfold stale_empty. destruct (s_disk s k) eqn:D; auto. destruct (p_cache pr k) eqn:E; auto.
+Qed.
+
+Lemma invA_sweep V C s pr : InvA C s -> InvA C (sweep V C s pr).
+Proof.
+  intros I.
+  apply (invA_delete_many C s _ (fun k => s_disk (sweep V C s pr) k = Absent /\ s_disk s k = Empty /\ s_lock s = None)).
+  - exact I.
+  - apply sweep_lock.
+  - intros k N. destruct (sweep_disk V C s pr k) as [E|[E1 [E2 [E3 E4]]]]; auto. exfalso. apply N. auto.
+  - intros k [E _]. exact E.
+  - intros k _. rewrite sweep_jobs. reflexivity.
+  - intros k [_ [E L]]. rewrite sweep_jobs. destruct (a_empty1 _ _ I k E) as [X|X]; auto.
+    apply (a_lock2 _ _ I) in X. congruence.
+  - intros k [_ [E L]] X. apply (a_lock2 _ _ I) in X. congruence.
+  - intros k. destruct (sweep_disk V C s pr k) as [E|[E1 [E2 [E3 E4]]]]; [right; intros [X [Y _]]; congruence|left; auto].
+  - intros q k c Hc. rewrite sweep_cache in Hc. eapply a_cache; eauto.
+Qed.
+
+Lemma invL_same_jobs s s' : InvL s -> s_jobs s' = s_jobs s -> InvL s'.
+Proof. intros L E. constructor; intros j; rewrite E; [apply (l_locked _ L)|apply (l_unlocked _ L)|apply (l_pid _ L)]. Qed.
+
+Lemma cap_sweep V C s pr : cnt_nonneg C -> held_sum C (sweep V C s pr) <= held_sum C s.
+Proof.
+  intros NN. unfold held_sum. apply sumf_le. intros k Hk. unfold held.
+  destruct (sweep_disk V C s pr k) as [E|[E1 [E2 _]]]; [rewrite E; lia|]. rewrite E1, E2. apply NN.
+Qed.
+
+Transparent parsable.
+Lemma parsable_sweep V C s pr pr' :
+  v_empty V = true -> s_lock s = None -> p_cache pr' = p_cache pr -> parsable C (sweep V C s pr) pr' = true.
+Proof.
+  intros VE L E. unfold parsable. apply forallb_forall. intros k _.
+  unfold sweep, lock_free. rewrite VE, L. simpl. unfold stale_empty. rewrite E.
+  destruct (s_disk s k); auto. destruct (p_cache pr k); auto.
+Qed.
+Lemma parsable_cache C s pr pr' : p_cache pr' = p_cache pr -> parsable C s pr' = parsable C s pr.
+Proof. intros E. unfold parsable. rewrite E. reflexivity. Qed.
+Opaque parsable.
+
+Definition fresh_proc := mkProc true 0 (fun _ => None) true [] [].
+Definition pre (V : variant) (C : cfg) (s : state) (l : label) : state :=
+  match l with
+  | Start p => sweep V C s fresh_proc
+  | Acquire p _ | Release p _ => sweep V C s (s_procs s p)
+  | _ => s
+  end.
+Lemma step1_pre V C s l : step1 V C s l = core V C (pre V C s l) l.
+Proof. destruct l; reflexivity. Qed.
+Lemma pre_cases V C s l : pre V C s l = s \/ exists pr, pre V C s l = sweep V C s pr.
+Proof. destruct l; simpl; eauto. Qed.
+
+Lemma invA_pre V C s l : InvA C s -> InvA C (pre V C s l).
+Proof. intros I. destruct (pre_cases V C s l) as [E|[pr E]]; rewrite E; auto. apply invA_sweep; auto. Qed.
+Lemma invL_pre V C s l : InvL s -> InvL (pre V C s l).
+Proof.
+  intros L. destruct (pre_cases V C s l) as [E|[pr E]]; rewrite E; auto.
+  apply (invL_same_jobs s); auto. apply sweep_jobs.
+Qed.
+Lemma cap_pre V C s l : cnt_nonneg C -> held_sum C s <= c_total C -> held_sum C (pre V C s l) <= c_total C.
+Proof.
+  intros NN H. destruct (pre_cases V C s l) as [E|[pr E]]; rewrite E; auto.
+  assert (X := cap_sweep V C s pr NN). lia.
+Qed.
+
+Lemma invA_step1 V C s l s' r : v_fire V = true -> InvL s -> InvA C s -> step1 V C s l = Some (s', r) -> InvA C s'.
+Proof.
+  intros VFI L I H. rewrite step1_pre in H.
+  apply (invA_core V C _ l s' r VFI (invL_pre V C s l L) (invA_pre V C s l I) H).
+Qed.
+Lemma invL_step1 V C s l s' r : InvA C s -> InvL s -> step1 V C s l = Some (s', r) -> InvL s'.
+Proof.
+  intros I L H. rewrite step1_pre in H.
+  apply (invL_core V C _ l s' r (invA_pre V C s l I) (invL_pre V C s l L) H).
+Qed.
+Lemma cap_step1 V C s l s' r :
+  cnt_nonneg C -> InvA C s -> held_sum C s <= c_total C -> step1 V C s l = Some (s', r) -> held_sum C s' <= c_total C.
+Proof.
+  intros NN I Hc H. rewrite step1_pre in H.
+  apply (cap_core V C _ l s' r NN (invA_pre V C s l I) (cap_pre V C s l NN Hc) H).
+Qed.
+
 (* ---- the same for `step` *)
 Lemma step_cases V C s l s' r :
   step V C s l = Some (s', r) ->
   step1 V C s l = Some (s', r) \/
   exists p n s1, l = StartRace p n /\
-     ((v_watch V = true /\ ghost_delete C s n = Some s1 /\ step1 V C s1 (Start p) = Some (s', r)) \/
+     ((v_watch V = true /\ ghost_delete C (sweep V C s fresh_proc) n = Some s1 /\ step1 V C s1 (Start p) = Some (s', r)) \/
       (v_watch V = false /\ (exists r1, step1 V C s (Start p) = Some (s1, r1)) /\ silent_fire C s1 p n = Some (s', r))).
 Proof.
   intros H. destruct l; try (left; exact H). right. unfold step in H.
   destruct (v_watch V) eqn:W.
-  - destruct (ghost_delete C s n) as [s1|] eqn:E; try discriminate. exists p, n, s1. split; auto.
+  - change (mkProc true 0 (fun _ => None) true [] []) with fresh_proc in H.
+    destruct (ghost_delete C (sweep V C s fresh_proc) n) as [s1|] eqn:E; try discriminate. exists p, n, s1. split; auto.
   - destruct (step1 V C s (Start p)) as [[s1 r1]|] eqn:E; try discriminate.
     exists p, n, s1. split; auto. right. split; auto. split; eauto.
 Qed.
@@ -667,9 +866,6 @@ Proof.
   - apply good_emit. apply good_all; auto.
 Qed.
 
-Lemma invL_same_jobs s s' : InvL s -> s_jobs s' = s_jobs s -> InvL s'.
-Proof. intros L E. constructor; intros j; rewrite E; [apply (l_locked _ L)|apply (l_unlocked _ L)|apply (l_pid _ L)]. Qed.
-
 Lemma cap_ghost C s n s1 :
   cnt_nonneg C -> InvA C s -> held_sum C s <= c_total C -> ghost_delete C s n = Some s1 -> held_sum C s1 <= c_total C.
 Proof.
@@ -682,28 +878,33 @@ Proof.
   - intros k Hk. apply upd_other; auto.
 Qed.
 
-Lemma invAL_step V C s l s' r : InvA C s /\ InvL s -> step V C s l = Some (s', r) -> InvA C s' /\ InvL s'.
+Lemma invAL_step V C s l s' r : v_fire V = true -> InvA C s /\ InvL s -> step V C s l = Some (s', r) -> InvA C s' /\ InvL s'.
 Proof.
-  intros [I L] H. apply step_cases in H. destruct H as [H|[p [n [s1 [_ [[_ [H1 H2]]|[_ [[r1 H1] H2]]]]]]]].
-  - split; [apply (invA_step1 V C s l s' r L I H)|apply (invL_step1 V C s l s' r I L H)].
-  - assert (I1 : InvA C s1) by (apply (invA_ghost C s n s1 L I H1)).
-    assert (L1 : InvL s1) by (apply (invL_same_jobs s s1 L); apply (ghost_jobs C s n s1 H1)).
-    split; [apply (invA_step1 V C s1 _ s' r L1 I1 H2)|apply (invL_step1 V C s1 _ s' r I1 L1 H2)].
-  - assert (I1 : InvA C s1) by (apply (invA_step1 V C s _ s1 r1 L I H1)).
+  intros VFI [I L] H. apply step_cases in H. destruct H as [H|[p [n [s1 [_ [[_ [H1 H2]]|[_ [[r1 H1] H2]]]]]]]].
+  - split; [apply (invA_step1 V C s l s' r VFI L I H)|apply (invL_step1 V C s l s' r I L H)].
+  - assert (I0 : InvA C (sweep V C s fresh_proc)) by (apply invA_sweep; auto).
+    assert (L0 : InvL (sweep V C s fresh_proc)) by (apply (invL_same_jobs s); auto; apply sweep_jobs).
+    assert (I1 : InvA C s1) by (apply (invA_ghost C _ n s1 L0 I0 H1)).
+    assert (L1 : InvL s1) by (apply (invL_same_jobs _ s1 L0); apply (ghost_jobs C _ n s1 H1)).
+    split; [apply (invA_step1 V C s1 _ s' r VFI L1 I1 H2)|apply (invL_step1 V C s1 _ s' r I1 L1 H2)].
+  - assert (I1 : InvA C s1) by (apply (invA_step1 V C s _ s1 r1 VFI L I H1)).
     assert (L1 : InvL s1) by (apply (invL_step1 V C s _ s1 r1 I L H1)).
     split; [eapply invA_silent; eauto|].
     apply (invL_same_jobs s1 s' L1). apply (silent_jobs C s1 p n s' r H2).
 Qed.
 
 Lemma cap_step V C s l s' r :
-  cnt_nonneg C -> InvA C s -> InvL s -> held_sum C s <= c_total C -> step V C s l = Some (s', r) -> held_sum C s' <= c_total C.
+  v_fire V = true -> cnt_nonneg C -> InvA C s -> InvL s -> held_sum C s <= c_total C -> step V C s l = Some (s', r) -> held_sum C s' <= c_total C.
 Proof.
-  intros NN I L Hc H. apply step_cases in H. destruct H as [H|[p [n [s1 [_ [[_ [H1 H2]]|[_ [[r1 H1] H2]]]]]]]].
+  intros VFI NN I L Hc H. apply step_cases in H. destruct H as [H|[p [n [s1 [_ [[_ [H1 H2]]|[_ [[r1 H1] H2]]]]]]]].
   - eapply cap_step1; eauto.
-  - assert (I1 : InvA C s1) by (apply (invA_ghost C s n s1 L I H1)).
-    assert (C1 : held_sum C s1 <= c_total C) by (apply (cap_ghost C s n s1 NN I Hc H1)).
+  - assert (I0 : InvA C (sweep V C s fresh_proc)) by (apply invA_sweep; auto).
+    assert (L0 : InvL (sweep V C s fresh_proc)) by (apply (invL_same_jobs s); auto; apply sweep_jobs).
+    assert (C0 : held_sum C (sweep V C s fresh_proc) <= c_total C) by (assert (X := cap_sweep V C s fresh_proc NN); lia).
+    assert (I1 : InvA C s1) by (apply (invA_ghost C _ n s1 L0 I0 H1)).
+    assert (C1 : held_sum C s1 <= c_total C) by (apply (cap_ghost C _ n s1 NN I0 C0 H1)).
     apply (cap_step1 V C s1 _ s' r NN I1 C1 H2).
-  - assert (I1 : InvA C s1) by (apply (invA_step1 V C s _ s1 r1 L I H1)).
+  - assert (I1 : InvA C s1) by (apply (invA_step1 V C s _ s1 r1 VFI L I H1)).
     assert (C1 : held_sum C s1 <= c_total C) by (apply (cap_step1 V C s _ s1 r1 NN I Hc H1)).
     apply (cap_silent C s1 p n s' r NN I1 C1 H2).
 Qed.
@@ -775,38 +976,35 @@ Qed.
 
 (* facts about a recount by a process whose cache is good, token.lock free *)
 Lemma recount_facts C s pr :
-  InvA C s -> s_lock s = None -> cache_good C pr ->
-  (forall k, p_cache (recount C s pr) k <> None -> exists c, s_disk s k = Written c) /\
-  (forall k c, s_disk s k = Written c -> p_cache (recount C s pr) k = Some (c_cnt C k)) /\
+  InvA C s -> parsable C s pr = true -> cache_good C pr ->
+  (forall k, p_cache (recount C s pr) k <> None -> s_disk s k <> Absent) /\
+  (forall k, s_disk s k <> Absent -> p_cache (recount C s pr) k = Some (c_cnt C k)) /\
   (forall k, p_cache (recount C s pr) k <> None -> p_cache pr k <> None \/ In k (new_names C s pr)) /\
   p_avail (recount C s pr) = c_total C - cache_sum C (recount C s pr).
 Proof.
   intros I L G. split; [|split; [|split]].
   - intros k H. rewrite recount_cache_eq, (recount_cache_spec C s pr k I L G) in H.
-    destruct (s_disk s k); try congruence. eauto.
-  - intros k c D. rewrite recount_cache_eq, (recount_cache_spec C s pr k I L G), D. reflexivity.
+    destruct (s_disk s k); congruence.
+  - intros k D. rewrite recount_cache_eq, (recount_cache_spec C s pr k I L G).
+    destruct (s_disk s k); congruence.
   - intros k H. rewrite recount_cache_eq, (recount_cache_spec C s pr k I L G) in H.
     destruct (s_disk s k) eqn:D; try congruence.
-    destruct (p_cache pr k) eqn:E; [left; congruence|right].
-    eapply new_names_In; eauto. apply (a_disk _ _ I). congruence.
+    + left. apply (parsable_at C s pr k L); auto. apply (a_disk _ _ I). congruence.
+    + destruct (p_cache pr k) eqn:E; [left; congruence|right].
+      eapply new_names_In; eauto. apply (a_disk _ _ I). congruence.
   - rewrite (recount_avail C s pr I L G). unfold cache_sum, held_sum. f_equal. apply sumf_ext. intros k Hk.
     rewrite recount_cache_eq, (recount_cache_spec C s pr k I L G). unfold held.
     destruct (s_disk s k) eqn:D; simpl; auto.
-    apply (a_empty1 _ _ I) in D. apply (a_lock2 _ _ I) in D. congruence.
 Qed.
-
-Lemma no_empty C s k : InvA C s -> s_lock s = None -> s_disk s k <> Empty.
-Proof. intros I L D. apply (a_empty1 _ _ I) in D. apply (a_lock2 _ _ I) in D. congruence. Qed.
 
 (* if the directory holds something, a recount caches something *)
 Lemma recount_nonempty C s pr :
-  InvA C s -> s_lock s = None -> cache_good C pr -> held_sum C s <> 0 ->
+  InvA C s -> parsable C s pr = true -> cache_good C pr -> held_sum C s <> 0 ->
   exists k, p_cache (recount C s pr) k <> None.
 Proof.
   intros I L G H. unfold held_sum in H. apply sumf_nonzero in H. destruct H as [k [Hk Hh]].
-  unfold held in Hh. destruct (s_disk s k) eqn:D; try congruence.
-  - exfalso. eapply no_empty; eauto.
-  - exists k. destruct (recount_facts C s pr I L G) as [_ [F _]]. rewrite (F k c D). congruence.
+  unfold held in Hh. exists k. destruct (recount_facts C s pr I L G) as [_ [F _]].
+  rewrite (F k); [congruence|]. destruct (s_disk s k); congruence.
 Qed.
 
 Lemma avail_le_total C s p : cnt_pos C -> InvA C s -> InvB C s -> p_alive (s_procs s p) = true -> p_avail (s_procs s p) <= c_total C.
@@ -822,14 +1020,14 @@ Ltac namedB := constructor; simpl;
 
 Ltac cq q p := destruct (Nat.eq_dec q p) as [->|NE]; [rewrite ?upd_same in * | rewrite ?upd_other in * by auto].
 
-Lemma invB_start C s p s' r : cnt_pos C -> InvA C s -> InvB C s -> step VF C s (Start p) = Some (s', r) -> InvB C s'.
+Lemma invB_start C s p s' r : cnt_pos C -> InvA C s -> InvB C s -> core VF C s (Start p) = Some (s', r) -> InvB C s'.
 Proof.
-  intros NP I B H. simpl in H. open_guard H. split_and G. apply lock_free_None in G1.
+  intros NP I B H. simpl in H. open_start H ltac:(assumption). split_and G. apply lock_free_None in G1.
   inversion H; subst; clear H.
   set (fresh := mkProc true 0 (fun _ => None) true [] []) in *.
   assert (FG : cache_good C fresh) by (intros k c Hc; discriminate).
-  destruct (recount_facts C s fresh I G1 FG) as [R1 [R2 [R3 R4]]].
-  assert (RG := recount_good C s fresh I G1 FG).
+  destruct (recount_facts C s fresh I G0 FG) as [R1 [R2 [R3 R4]]].
+  assert (RG := recount_good C s fresh I G0 FG).
   assert (AV : p_avail (recount C s fresh) <= c_total C).
   { rewrite R4. assert (0 <= cache_sum C (recount C s fresh)) by (apply cache_sum_nonneg; auto). lia. }
   assert (RO : p_obs (recount C s fresh) = true) by reflexivity.
@@ -844,7 +1042,7 @@ Proof.
   - cq q p; [apply R4|]. apply (b_avail _ _ B); auto.
   - cq q p; [exact RO|]. apply (b_obs _ _ B); auto.
   - cq q p.
-    + destruct (R1 k HC) as [c D]. left. congruence.
+    + left. apply (R1 k HC).
     + apply (b_known _ _ B); auto.
   - cq q p.
     + left. rewrite RW.
@@ -859,7 +1057,7 @@ Proof.
   - unfold jobs' in HK. destruct (_ && _ && _); simpl in HK; [lia|]. apply (b_ok _ _ B); auto.
 Qed.
 
-Lemma invB_kill C s p s' r : cnt_pos C -> InvA C s -> InvB C s -> step VF C s (Kill p) = Some (s', r) -> InvB C s'.
+Lemma invB_kill C s p s' r : cnt_pos C -> InvA C s -> InvB C s -> core VF C s (Kill p) = Some (s', r) -> InvB C s'.
 Proof.
   intros NP I B H. simpl in H. open_guard H. split_and G. inversion H; subst; clear H.
   match goal with |- InvB C (mkS _ _ _ ?J) => set (jobs' := J) end.
@@ -883,7 +1081,7 @@ Qed.
 Lemma in_app_l {A} (x : A) l l' : In x l -> In x (l ++ l').
 Proof. intros; apply in_or_app; auto. Qed.
 
-Lemma invB_acquire C s p j s' r : cnt_pos C -> InvA C s -> InvB C s -> step VF C s (Acquire p j) = Some (s', r) -> InvB C s'.
+Lemma invB_acquire C s p j s' r : cnt_pos C -> InvA C s -> InvB C s -> core VF C s (Acquire p j) = Some (s', r) -> InvB C s'.
 Proof.
   intros NP I B H. simpl in H. open_guard H. split_and G.
   apply lock_free_None in G1. apply Nat.ltb_lt in G6. apply Nat.eqb_eq in G5. subst p.
@@ -891,10 +1089,10 @@ Proof.
   assert (Horph : j_orph (s_jobs s j) = false) by (destruct (j_orph (s_jobs s j)); simpl in G3; congruence).
   set (p := c_owner C j) in *.
   assert (PG := good_all C s I p).
-  destruct (recount_facts C s (s_procs s p) I G1 PG) as [R1 [R2 [R3 R4]]].
-  assert (RG := recount_good C s (s_procs s p) I G1 PG).
-  assert (RA := recount_avail C s (s_procs s p) I G1 PG).
-  assert (RN := recount_nonempty C s (s_procs s p) I G1 PG).
+  destruct (recount_facts C s (s_procs s p) I G0 PG) as [R1 [R2 [R3 R4]]].
+  assert (RG := recount_good C s (s_procs s p) I G0 PG).
+  assert (RA := recount_avail C s (s_procs s p) I G0 PG).
+  assert (RN := recount_nonempty C s (s_procs s p) I G0 PG).
   assert (RO : p_obs (recount C s (s_procs s p)) = p_obs (s_procs s p)) by reflexivity.
   assert (RL : p_alive (recount C s (s_procs s p)) = p_alive (s_procs s p)) by reflexivity.
   assert (RE : p_evq (recount C s (s_procs s p)) = p_evq (s_procs s p)) by reflexivity.
@@ -913,7 +1111,7 @@ Proof.
     + cq q p; [apply R4|]. apply (b_avail _ _ B); auto.
     + cq q p; [rewrite RO; apply (b_obs _ _ B); auto|]. apply (b_obs _ _ B); auto.
     + cq q p.
-      * destruct (R1 k HC) as [c D]. left. congruence.
+      * left. apply (R1 k HC).
       * apply (b_known _ _ B); auto.
     + assert (JO : j_orph (upd (s_jobs s) j (set_ok (s_jobs s j) (c_cnt C j <=? p_avail pr)) k) = j_orph (s_jobs s k)).
       { unfold upd. destruct (Nat.eqb_spec k j); subst; reflexivity. }
@@ -931,7 +1129,7 @@ Proof.
     + cu HK; [lia|]. apply (b_ok _ _ B); auto.
   - (* token taken, file opened *)
     assert (CJ : p_cache pr j = None).
-    { destruct (p_cache pr j) eqn:E; auto. destruct (R1 j) as [c D]; congruence. }
+    { destruct (p_cache pr j) eqn:E; auto. exfalso. apply (R1 j); congruence. }
     assert (JO : forall k, j_orph (upd (s_jobs s) j (set_job (s_jobs s j) Creating true (j_pid (s_jobs s j))) k) = j_orph (s_jobs s k)).
     { intros k. unfold upd. destruct (Nat.eqb_spec k j); subst; reflexivity. }
     namedB.
@@ -944,7 +1142,7 @@ Proof.
       * intros x Hx. apply upd_other; auto.
     + rewrite emit_alive in HA. rewrite emit_obs. cq q p; simpl; [rewrite RO|]; apply (b_obs _ _ B); auto.
     + rewrite emit_alive in HA. rewrite emit_cache in HC. cq q p; simpl in *.
-      * left. cu HC; [rewrite upd_same; discriminate|]. rewrite upd_other by auto. destruct (R1 k HC) as [c D]. congruence.
+      * left. cu HC; [rewrite upd_same; discriminate|]. rewrite upd_other by auto. apply (R1 k HC).
       * destruct (b_known _ _ B q k HA HC) as [K|K].
         -- left. unfold upd. destruct (Nat.eqb_spec k j); [discriminate|auto].
         -- right. apply emit_evq_In. rewrite upd_other by auto. auto.
@@ -970,11 +1168,12 @@ Proof.
     + cu HK; [apply (b_ok _ _ B); auto|]. apply (b_ok _ _ B); auto.
 Qed.
 
-Lemma invB_write C s j s' r : cnt_pos C -> InvA C s -> InvB C s -> step VF C s (WriteF j) = Some (s', r) -> InvB C s'.
+Lemma invB_write C s j s' r : cnt_pos C -> InvA C s -> InvB C s -> core VF C s (WriteF j) = Some (s', r) -> InvB C s'.
 Proof.
   intros NP I B H. simpl in H.
   destruct (s_lock s) eqn:L; try discriminate. destruct (Nat.eqb_spec j n); try discriminate. subst.
-  inversion H; subst; clear H. destruct (a_lock1 _ _ I n L) as [Hc Hn].
+  rewrite (a_empty2 _ _ I n (proj1 (a_lock1 _ _ I n L))) in H. cbn [is_present] in H.
+    inversion H; subst; clear H. destruct (a_lock1 _ _ I n L) as [Hc Hn].
   assert (DE := a_empty2 _ _ I n Hc).
   assert (DD : forall k, upd (s_disk s) n (Written (c_cnt C n)) k <> Absent -> s_disk s k <> Absent).
   { intros k. unfold upd. destruct (Nat.eqb_spec k n); subst; [congruence|auto]. }
@@ -1009,18 +1208,18 @@ Proof.
   - cu HK; apply (b_ok _ _ B); auto.
 Qed.
 
-Lemma invB_launch C s j s' r : InvB C s -> step VF C s (Launch j) = Some (s', r) -> InvB C s'.
+Lemma invB_launch C s j s' r : InvB C s -> core VF C s (Launch j) = Some (s', r) -> InvB C s'.
 Proof.
   intros B H. simpl in H. destruct (j_ph (s_jobs s j)); try discriminate. destruct (j_orph (s_jobs s j)); try discriminate.
   inversion H; subst. apply invB_phase; auto. discriminate.
 Qed.
-Lemma invB_ends C s j c s' r : InvB C s -> step VF C s (JobEnds j c) = Some (s', r) -> InvB C s'.
+Lemma invB_ends C s j c s' r : InvB C s -> core VF C s (JobEnds j c) = Some (s', r) -> InvB C s'.
 Proof.
   intros B H. simpl in H. destruct (j_ph (s_jobs s j)); try discriminate.
   inversion H; subst. apply invB_phase; auto. discriminate.
 Qed.
 
-Lemma invB_fire C s p n s' r : cnt_pos C -> InvA C s -> InvB C s -> step VF C s (Fire p n) = Some (s', r) -> InvB C s'.
+Lemma invB_fire C s p n s' r : cnt_pos C -> InvA C s -> InvB C s -> core VF C s (Fire p n) = Some (s', r) -> InvB C s'.
 Proof.
   intros NP I B H. simpl in H. open_guard H. split_and G.
   set (pr' := mkProc (p_alive (s_procs s p)) (p_avail (s_procs s p)) (p_cache (s_procs s p)) (p_obs (s_procs s p))
@@ -1059,7 +1258,7 @@ Proof.
     + apply (b_ok _ _ B); auto.
 Qed.
 
-Lemma invB_release C s p j s' r : cnt_pos C -> InvA C s -> InvB C s -> step VF C s (Release p j) = Some (s', r) -> InvB C s'.
+Lemma invB_release C s p j s' r : cnt_pos C -> InvA C s -> InvB C s -> core VF C s (Release p j) = Some (s', r) -> InvB C s'.
 Proof.
   intros NP I B H. simpl in H.
   destruct (match j_ph (s_jobs s j) with Holding => Some Idle | Ended => Some Done | _ => None end) as [ph'|] eqn:NPH; try discriminate.
@@ -1067,8 +1266,8 @@ Proof.
   set (p := c_owner C j) in *.
   assert (Horph : j_orph (s_jobs s j) = false) by (destruct (j_orph (s_jobs s j)); simpl in G2; congruence).
   assert (PG := good_all C s I p).
-  destruct (recount_facts C s (s_procs s p) I G1 PG) as [R1 [R2 [R3 R4]]].
-  assert (RG := recount_good C s (s_procs s p) I G1 PG).
+  destruct (recount_facts C s (s_procs s p) I G0 PG) as [R1 [R2 [R3 R4]]].
+  assert (RG := recount_good C s (s_procs s p) I G0 PG).
   assert (RO : p_obs (recount C s (s_procs s p)) = p_obs (s_procs s p)) by reflexivity.
   assert (RL : p_alive (recount C s (s_procs s p)) = p_alive (s_procs s p)) by reflexivity.
   assert (RE : p_evq (recount C s (s_procs s p)) = p_evq (s_procs s p)) by reflexivity.
@@ -1106,7 +1305,8 @@ Proof.
   destruct (p_cache pr j) as [c|] eqn:PC.
   - (* the file is there: deleted, cache entry dropped *)
     assert (HCJ : p_cache pr j <> None) by congruence.
-    destruct (R1 j HCJ) as [c0 DJ]. rewrite DJ in H. simpl in H. inversion H; subst; clear H.
+    assert (DJ := R1 j HCJ). assert (PRS : is_present (s_disk s j) = true) by (destruct (s_disk s j); simpl; congruence).
+    rewrite PRS in H. inversion H; subst; clear H.
     assert (Hc : c = c_cnt C j) by (apply (RG j c PC)).
     assert (Hjn : (j < c_n C)%nat) by (apply (RG j c PC)).
     set (pr' := mkProc (p_alive pr) (p_avail pr + c) (upd (p_cache pr) j None) (p_obs pr) (p_evq pr) (p_wat pr)) in *.
@@ -1126,7 +1326,7 @@ Proof.
       cq q p; [apply AVN|]. apply (b_avail _ _ B); auto.
     + rewrite emit_alive in HA. rewrite emit_obs. cq q p; simpl; [rewrite RO|]; apply (b_obs _ _ B); auto.
     + rewrite emit_alive in HA. rewrite emit_cache in HC. cq q p; simpl in *.
-      * left. cu HC; [congruence|]. rewrite upd_other by auto. destruct (R1 k HC) as [c1 D]. congruence.
+      * left. cu HC; [congruence|]. rewrite upd_other by auto. apply (R1 k HC).
       * destruct (Nat.eq_dec k j) as [->|NK].
         -- right. apply emit_evq_new; rewrite upd_other by auto; auto. apply (b_obs _ _ B); auto.
         -- rewrite upd_other by auto. destruct (b_known _ _ B q k HA HC) as [K|K]; auto.
@@ -1151,7 +1351,7 @@ Proof.
     + cq q p; [apply R4|]. apply (b_avail _ _ B); auto.
     + cq q p; [rewrite RO|]; apply (b_obs _ _ B); auto.
     + cq q p.
-      * left. destruct (R1 k HC) as [c1 D]. congruence.
+      * left. apply (R1 k HC).
       * apply (b_known _ _ B); auto.
     + rewrite notify_orph, J1O. cq q p.
       * apply WP; auto.
@@ -1163,7 +1363,7 @@ Qed.
 Lemma event_neq_del k n : k <> n -> EDeleted k <> EDeleted n.
 Proof. congruence. Qed.
 
-Lemma invB_deliver C s p i s' r : cnt_pos C -> InvA C s -> InvB C s -> step VF C s (Deliver p i) = Some (s', r) -> InvB C s'.
+Lemma invB_deliver C s p i s' r : cnt_pos C -> InvA C s -> InvB C s -> core VF C s (Deliver p i) = Some (s', r) -> InvB C s'.
 Proof.
   intros NP I B H. simpl in H. open_guard H. split_and G.
   destruct (nth_error (p_evq (s_procs s p)) i) as [ev|] eqn:NTH; try discriminate.
@@ -1285,15 +1485,74 @@ Proof.
   - apply (b_ok _ _ B); auto.
 Qed.
 
-Lemma invB_killed C s j s' r : InvB C s -> step VF C s (JobKilled j) = Some (s', r) -> InvB C s'.
+Lemma invB_resubmit C s p j s' r : cnt_pos C -> InvA C s -> InvB C s -> core VF C s (Resubmit p j) = Some (s', r) -> InvB C s'.
+Proof.
+  intros NP I B H. simpl in H. destruct (j_ph (s_jobs s j)) eqn:P; try discriminate. open_guard H. split_and G.
+  apply Nat.eqb_eq in G1. subst p. inversion H; subst; clear H.
+  assert (JO : forall k, k <> j -> upd (s_jobs s) j (mkJ Idle (c_cnt C j <=? p_avail (s_procs s (c_owner C j))) false false (j_pid (s_jobs s j))) k = s_jobs s k).
+  { intros k Hk. apply upd_other; auto. }
+  assert (AV := avail_le_total C s (c_owner C j) NP I B G).
+  namedB.
+  - apply (b_avail _ _ B); auto.
+  - apply (b_obs _ _ B); auto.
+  - apply (b_known _ _ B); auto.
+  - destruct (Nat.eq_dec k j) as [->|NK].
+    + exfalso. assert (X := idle_absent C s j I (or_intror P)). congruence.
+    + rewrite JO by auto. apply (b_watch _ _ B); auto.
+  - destruct (Nat.eq_dec j0 j) as [->|NK].
+    + rewrite upd_same in HK. simpl in HK. left. lia.
+    + rewrite JO in * by auto. apply (b_wait _ _ B); auto.
+  - destruct (Nat.eq_dec j0 j) as [->|NK].
+    + rewrite upd_same in HK. simpl in HK. lia.
+    + rewrite JO in HK by auto. apply (b_ok _ _ B); auto.
+Qed.
+
+Lemma invB_killed C s j s' r : InvB C s -> core VF C s (JobKilled j) = Some (s', r) -> InvB C s'.
 Proof.
   intros B H. simpl in H. destruct (j_ph (s_jobs s j)); try discriminate.
   inversion H; subst. apply invB_phase; auto. discriminate.
 Qed.
 
-Lemma invB_step C s l s' r : cnt_pos C -> InvA C s -> InvL s -> InvB C s -> step VF C s l = Some (s', r) -> InvB C s'.
+Lemma emit_list_evq_new evs : forall procs q ev,
+  In ev evs -> p_alive (procs q) = true -> p_obs (procs q) = true -> In ev (p_evq (emit_list evs procs q)).
 Proof.
-  intros NP I L B H. destruct l.
+  induction evs; simpl; intros procs q ev HI A O; [contradiction|]. destruct HI as [->|HI].
+  - apply emit_list_evq_In. apply emit_evq_new; auto.
+  - apply IHevs; auto; [rewrite emit_alive|rewrite emit_obs]; auto.
+Qed.
+
+Lemma invB_sweep C s pr : cnt_pos C -> InvA C s -> InvB C s -> InvB C (sweep VF C s pr).
+Proof.
+  intros NP I B.
+  assert (SW : forall q k, p_alive (s_procs s q) = true -> s_disk (sweep VF C s pr) k = Absent -> s_disk s k <> Absent ->
+     In (EDeleted k) (p_evq (s_procs (sweep VF C s pr) q))).
+  { intros q k A D1 D2. unfold sweep in *. destruct (v_empty VF && lock_free s) eqn:G; [|congruence]. simpl in *.
+    assert (ST : stale_empty s pr k = true).
+    { unfold stale_empty. destruct (s_disk s k); try congruence. destruct (p_cache pr k); congruence. }
+    apply emit_list_evq_new; auto; [|apply (b_obs _ _ B); auto].
+    apply in_map. apply filter_In. split; auto. apply in_seq. destruct (a_disk _ _ I k D2). lia. }
+  namedB.
+  - rewrite sweep_alive in HA. rewrite sweep_avail. unfold cache_sum. rewrite sweep_cache. apply (b_avail _ _ B); auto.
+  - rewrite sweep_alive in HA. rewrite sweep_obs. apply (b_obs _ _ B); auto.
+  - rewrite sweep_alive in HA. rewrite sweep_cache in HC.
+    destruct (b_known _ _ B q k HA HC) as [K|K]; [|right; apply sweep_evq_In; auto].
+    destruct (sweep_disk VF C s pr k) as [E|[E1 _]]; [left; congruence|right; apply SW; auto].
+  - rewrite sweep_alive in HA. rewrite sweep_cache in HC. rewrite sweep_wat, sweep_jobs.
+    assert (HD' : s_disk s k <> Absent).
+    { destruct (sweep_disk VF C s pr k) as [E|[E1 _]]; congruence. }
+    destruct (b_watch _ _ B q k HA HC HD') as [W|[W|W]]; auto. right. right. apply sweep_evq_In; auto.
+  - rewrite sweep_alive in HA. rewrite sweep_jobs in *. rewrite sweep_avail, sweep_cache. apply (b_wait _ _ B); auto.
+  - rewrite sweep_jobs in HK. apply (b_ok _ _ B); auto.
+Qed.
+
+Lemma invB_pre C s l : cnt_pos C -> InvA C s -> InvB C s -> InvB C (pre VF C s l).
+Proof.
+  intros NP I B. destruct (pre_cases VF C s l) as [E|[pr E]]; rewrite E; auto. apply invB_sweep; auto.
+Qed.
+
+Lemma invB_core C s l s' r : cnt_pos C -> InvA C s -> InvB C s -> core VF C s l = Some (s', r) -> InvB C s'.
+Proof.
+  intros NP I B H. destruct l.
   - eapply invB_start; eauto.
   - eapply invB_kill; eauto.
   - eapply invB_acquire; eauto.
@@ -1304,28 +1563,45 @@ Proof.
   - eapply invB_release; eauto.
   - eapply invB_deliver; eauto.
   - eapply invB_fire; eauto.
+  - discriminate.
+  - simpl in H. discriminate.
+  - eapply invB_resubmit; eauto.
+Qed.
+
+Lemma invB_step1 C s l s' r : cnt_pos C -> InvA C s -> InvB C s -> step1 VF C s l = Some (s', r) -> InvB C s'.
+Proof.
+  intros NP I B H. rewrite step1_pre in H.
+  apply (invB_core C _ l s' r NP (invA_pre VF C s l I) (invB_pre C s l NP I B) H).
+Qed.
+
+Lemma invB_step C s l s' r : cnt_pos C -> InvA C s -> InvL s -> InvB C s -> step VF C s l = Some (s', r) -> InvB C s'.
+Proof.
+  intros NP I L B H. apply step_cases in H. destruct H as [H|[p [n [s1 [_ [[_ [H1 H2]]|[W _]]]]]]].
+  - eapply invB_step1; eauto.
   - (* the repaired __init__: the file disappears, then Start *)
-    unfold step in H. simpl v_watch in H. cbv iota in H.
-    destruct (ghost_delete C s n) as [s1|] eqn:E; try discriminate.
-    assert (I1 : InvA C s1) by (apply (invA_ghost C s n s1 L I E)).
-    assert (B1 : InvB C s1) by (apply (invB_ghost C s n s1 NP I B E)).
-    apply (invB_start C s1 p s' r NP I1 B1 H).
+    assert (I0 : InvA C (sweep VF C s fresh_proc)) by (apply invA_sweep; auto).
+    assert (L0 : InvL (sweep VF C s fresh_proc)) by (apply (invL_same_jobs s); auto; apply sweep_jobs).
+    assert (B0 : InvB C (sweep VF C s fresh_proc)) by (apply invB_sweep; auto).
+    assert (I1 : InvA C s1) by (apply (invA_ghost C _ n s1 L0 I0 H1)).
+    assert (B1 : InvB C s1) by (apply (invB_ghost C _ n s1 NP I0 B0 H1)).
+    apply (invB_step1 C s1 _ s' r NP I1 B1 H2).
+  - discriminate.
 Qed.
 
 (* ====== part E: theorems *)
 Opaque recount notify emit parsable.
 
 (* ------------------------------------------------------------------ reachable states *)
-Lemma reach_invAL V C s : reachable V C s -> InvA C s /\ InvL s.
-Proof. induction 1; [split; [apply invA_init|apply invL_init]|eapply invAL_step; eauto]. Qed.
-Lemma reach_invA V C s : reachable V C s -> InvA C s.
-Proof. intros R. apply (reach_invAL V C s R). Qed.
-Lemma reach_invL V C s : reachable V C s -> InvL s.
-Proof. intros R. apply (reach_invAL V C s R). Qed.
+Lemma reach_invAL V C s : v_fire V = true -> reachable V C s -> InvA C s /\ InvL s.
+Proof. intros VFI. induction 1; [split; [apply invA_init|apply invL_init]|eapply invAL_step; eauto]. Qed.
+Lemma reach_invA V C s : v_fire V = true -> reachable V C s -> InvA C s.
+Proof. intros VFI R. apply (reach_invAL V C s VFI R). Qed.
+Lemma reach_invL V C s : v_fire V = true -> reachable V C s -> InvL s.
+Proof. intros VFI R. apply (reach_invAL V C s VFI R). Qed.
 
-Lemma reach_cap V C s : cnt_nonneg C -> 0 <= c_total C -> reachable V C s -> held_sum C s <= c_total C.
+Lemma reach_cap V C s : v_fire V = true -> cnt_nonneg C -> 0 <= c_total C -> reachable V C s -> held_sum C s <= c_total C.
 Proof.
-  intros NN T R. induction R.
+  intros VFI NN T R. induction R.
   - unfold held_sum. rewrite sumf_zero; auto.
   - eapply cap_step; eauto; [eapply reach_invA; eauto|eapply reach_invL; eauto].
 Qed.
@@ -1333,7 +1609,7 @@ Qed.
 Lemma reach_invB C s : cnt_pos C -> reachable VF C s -> InvB C s.
 Proof.
   intros NP R. induction R; [apply invB_init|].
-  apply (invB_step C s l s' r NP (reach_invA VF C s R) (reach_invL VF C s R) IHR H).
+  apply (invB_step C s l s' r NP (reach_invA VF C s eq_refl R) (reach_invL VF C s eq_refl R) IHR H).
 Qed.
 
 Lemma written_le_held C s : cnt_nonneg C -> InvA C s -> written_sum C s <= held_sum C s.
@@ -1346,26 +1622,26 @@ Qed.
 
 (* ------------------------------------------------------------------ C08 *)
 Theorem capacity_disk : forall V C s,
-  cnt_nonneg C -> 0 <= c_total C -> reachable V C s ->
+  cnt_nonneg C -> 0 <= c_total C -> v_fire V = true -> reachable V C s ->
   held_sum C s <= c_total C /\ written_sum C s <= c_total C.
 Proof.
-  intros V C s NN T R. assert (H := reach_cap V C s NN T R). split; auto.
-  assert (H' := written_le_held C s NN (reach_invA V C s R)). lia.
+  intros V C s NN T VFI R. assert (H := reach_cap V C s VFI NN T R). split; auto.
+  assert (H' := written_le_held C s NN (reach_invA V C s VFI R)). lia.
 Qed.
 
 Theorem running_has_file : forall V C s j,
-  reachable V C s -> j_ph (s_jobs s j) = Holding \/ j_ph (s_jobs s j) = Running ->
+  v_fire V = true -> reachable V C s -> j_ph (s_jobs s j) = Holding \/ j_ph (s_jobs s j) = Running ->
   s_disk s j = Written (c_cnt C j).
 Proof.
-  intros V C s j R H. assert (I := reach_invA V C s R).
+  intros V C s j VFI R H. assert (I := reach_invA V C s VFI R).
   destruct (a_hold _ _ I j H) as [c D]. rewrite D. f_equal. eapply a_written; eauto.
 Qed.
 
 Theorem running_sum : forall V C s,
-  cnt_nonneg C -> 0 <= c_total C -> reachable V C s ->
+  cnt_nonneg C -> 0 <= c_total C -> v_fire V = true -> reachable V C s ->
   sumf (c_n C) (fun j => match j_ph (s_jobs s j) with Running => c_cnt C j | _ => 0 end) <= c_total C.
 Proof.
-  intros V C s NN T R. assert (H := reach_cap V C s NN T R). assert (I := reach_invA V C s R).
+  intros V C s NN T VFI R. assert (H := reach_cap V C s VFI NN T R). assert (I := reach_invA V C s VFI R).
   assert (sumf (c_n C) (fun j => match j_ph (s_jobs s j) with Running => c_cnt C j | _ => 0 end) <= held_sum C s); [|lia].
   unfold held_sum. apply sumf_le. intros k Hk. unfold held. specialize (NN k).
   destruct (j_ph (s_jobs s k)) eqn:P; try (destruct (s_disk s k); lia).
@@ -1378,12 +1654,12 @@ Qed.
    and exit: the scheduler holds the job lock from before the token is taken until the pid
    file exists                                                                           *)
 Theorem watcher_not_early : forall V C s p n s' r,
-  reachable V C s -> step V C s (Fire p n) = Some (s', r) ->
+  v_fire V = true -> reachable V C s -> step V C s (Fire p n) = Some (s', r) ->
   j_lock (s_jobs s n) = false /\ (j_pid (s_jobs s n) = false \/ j_ph (s_jobs s n) <> Running) /\
   (j_ph (s_jobs s n) = Idle \/ j_ph (s_jobs s n) = Ended \/ j_ph (s_jobs s n) = Done).
 Proof.
-  intros V C s p n s' r R H. simpl in H. open_guard H. split_and G.
-  assert (PJ := can_finish_phase s n (reach_invL V C s R) G0).
+  intros V C s p n s' r VFI R H. simpl in H. open_guard H. split_and G.
+  assert (PJ := can_finish_phase s n (reach_invL V C s VFI R) G0).
   unfold watcher_can_finish in G0. apply andb_true_iff in G0. destruct G0 as [K1 K2].
   split; [destruct (j_lock (s_jobs s n)); simpl in K1; congruence|]. split.
   - destruct (j_pid (s_jobs s n)); auto. right. simpl in K2. destruct (j_ph (s_jobs s n)); simpl in K2; congruence.
@@ -1391,11 +1667,11 @@ Proof.
 Qed.
 
 Theorem start_window_locked : forall V C s j,
-  reachable V C s ->
+  v_fire V = true -> reachable V C s ->
   (j_ph (s_jobs s j) = Creating \/ j_ph (s_jobs s j) = Holding -> j_lock (s_jobs s j) = true) /\
   (j_ph (s_jobs s j) = Running -> j_pid (s_jobs s j) = true).
 Proof.
-  intros V C s j R. assert (L := reach_invL V C s R). split; [apply (l_locked _ L)|apply (l_pid _ L)].
+  intros V C s j VFI R. assert (L := reach_invL V C s VFI R). split; [apply (l_locked _ L)|apply (l_pid _ L)].
 Qed.
 
 (* ---- ProcessCounterToken *)
@@ -1437,59 +1713,137 @@ Theorem capacity_inproc : forall total n cnt t,
 Proof. intros. destruct (pinv total n cnt t) as [A [B _]]; auto. Qed.
 
 (* ------------------------------------------------------------------ C09 *)
-Transparent parsable.
-Lemma parsable_free C s pr : InvA C s -> s_lock s = None -> parsable C s pr = true.
+(* with the repaired _update the token stays usable whatever is left in the directory:
+   start, acquire and release only need token.lock *)
+Lemma pre_parsable V C s p pr :
+  v_empty V = true -> s_lock s = None -> p_cache pr = p_cache (s_procs s p) ->
+  parsable C (sweep V C s pr) (s_procs (sweep V C s pr) p) = true.
 Proof.
-  intros I L. unfold parsable. apply forallb_forall. intros k _.
-  destruct (s_disk s k) eqn:D; auto. exfalso. eapply no_empty; eauto.
+  intros VE L E. apply (parsable_sweep V C s pr _ VE L). rewrite sweep_cache. auto.
 Qed.
-Opaque parsable.
 
 Theorem release_enabled : forall V C s p j,
-  reachable V C s -> p_alive (s_procs s p) = true -> c_owner C j = p -> j_orph (s_jobs s j) = false ->
+  v_empty V = true -> p_alive (s_procs s p) = true -> c_owner C j = p -> j_orph (s_jobs s j) = false ->
   j_ph (s_jobs s j) = Holding \/ j_ph (s_jobs s j) = Ended -> s_lock s = None ->
   exists s' r, step V C s (Release p j) = Some (s', r).
 Proof.
-  intros V C s p j R A O Or P L. assert (I := reach_invA V C s R). simpl.
-  rewrite A, O, Nat.eqb_refl, Or. unfold lock_free. rewrite L. rewrite (parsable_free C s _ I L). simpl.
+  intros V C s p j VE A O Or P L. change (step V C s (Release p j)) with (core V C (sweep V C s (s_procs s p)) (Release p j)).
+  simpl. rewrite sweep_jobs, sweep_alive, A, O, Nat.eqb_refl, Or. unfold lock_free. rewrite sweep_lock, L.
+  rewrite (pre_parsable V C s p (s_procs s p) VE L eq_refl). simpl.
   destruct P as [P|P]; rewrite P; destruct (p_cache _ j); try destruct (is_present _); eauto.
 Qed.
 
-Theorem release_on_every_exit : forall V C s p j s' r,
-  reachable V C s -> step V C s (Release p j) = Some (s', r) ->
+Theorem start_enabled : forall V C s p,
+  v_empty V = true -> p_alive (s_procs s p) = false -> s_lock s = None ->
+  exists s', step V C s (Start p) = Some (s', ROk) /\ p_alive (s_procs s' p) = true.
+Proof.
+  intros V C s p VE A L. change (step V C s (Start p)) with (core V C (sweep V C s fresh_proc) (Start p)).
+  simpl. rewrite sweep_alive, A. unfold lock_free. rewrite sweep_lock, L.
+  change (mkProc true 0 (fun _ => None) true [] []) with fresh_proc.
+  rewrite (parsable_sweep V C s fresh_proc fresh_proc VE L eq_refl). simpl.
+  eexists. split; [reflexivity|]. simpl. rewrite upd_same. reflexivity.
+Qed.
+
+(* after a recount of the repaired code the only unwritten files left are the one being
+   created now and those the recounting process still had in cache (a stale entry of the same
+   name, dropped when its pending deletion event is handled); a starting process leaves none *)
+Lemma sweep_no_stale V C s pr k :
+  v_empty V = true -> s_lock s = None -> s_disk (sweep V C s pr) k = Empty -> p_cache pr k <> None.
+Proof.
+  intros VE L D. unfold sweep, lock_free in D. rewrite VE, L in D. simpl in D. unfold stale_empty in D.
+  destruct (s_disk s k); try discriminate. destruct (p_cache pr k); [discriminate|discriminate].
+Qed.
+
+Lemma core_disk_empty V C s l s' r k :
+  (exists p, l = Start p) \/ (exists p j, l = Acquire p j) \/ (exists p j, l = Release p j) ->
+  core V C s l = Some (s', r) -> s_disk s' k = Empty ->
+  s_lock s = None /\ (s_disk s k = Empty \/ s_lock s' = Some k).
+Proof.
+  intros HL H D. destruct HL as [[p ->]|[[p [j ->]]|[p [j ->]]]]; simpl in H.
+  - destruct (negb _ && lock_free s && _) eqn:G.
+    + split_and G. apply lock_free_None in G1. inversion H; subst. simpl in D. auto.
+    + destruct (negb _ && lock_free s) eqn:G2; [|discriminate]. split_and G2. apply lock_free_None in G0.
+      inversion H; subst. auto.
+  - open_guard H. split_and G. apply lock_free_None in G1. split; auto.
+    destruct (_ <? _); inversion H; subst; clear H; simpl in *; auto.
+    unfold upd in D. destruct (Nat.eqb_spec k j); subst; auto.
+  - destruct (match j_ph _ with Holding => Some Idle | Ended => Some Done | _ => None end); try discriminate.
+    open_guard H. split_and G. apply lock_free_None in G1. split; auto.
+    destruct (p_cache _ j).
+    + destruct (is_present (s_disk s j)); inversion H; subst; clear H; simpl in *; auto.
+      unfold upd in D. destruct (Nat.eqb_spec k j); subst; [discriminate|auto].
+    + inversion H; subst; clear H; simpl in *; auto.
+Qed.
+
+Theorem start_reclaims : forall V C s p s' r k,
+  v_empty V = true -> step V C s (Start p) = Some (s', r) -> s_disk s' k <> Empty.
+Proof.
+  intros V C s p s' r k VE H D.
+  change (step V C s (Start p)) with (core V C (sweep V C s fresh_proc) (Start p)) in H.
+  destruct (core_disk_empty V C _ _ s' r k (or_introl (ex_intro _ p eq_refl)) H D) as [L [E|E]].
+  - rewrite sweep_lock in L. apply (sweep_no_stale V C s fresh_proc k VE L E). reflexivity.
+  - simpl in H. destruct (negb _ && lock_free _ && _); [|destruct (negb _ && lock_free _)]; inversion H; subst; simpl in E; congruence.
+Qed.
+
+Theorem recount_reclaims : forall V C s l p j s' r k,
+  v_empty V = true -> l = Acquire p j \/ l = Release p j -> step V C s l = Some (s', r) ->
+  s_disk s' k = Empty -> s_lock s' = Some k \/ p_cache (s_procs s p) k <> None.
+Proof.
+  intros V C s l p j s' r k VE HL H D.
+  assert (H' : core V C (sweep V C s (s_procs s p)) l = Some (s', r)) by (destruct HL; subst; exact H).
+  assert (HL' : (exists p, l = Start p) \/ (exists p j, l = Acquire p j) \/ (exists p j, l = Release p j)).
+  { destruct HL; subst; [right; left|right; right]; eauto. }
+  destruct (core_disk_empty V C _ _ s' r k HL' H' D) as [L [E|E]]; auto.
+  rewrite sweep_lock in L. right. apply (sweep_no_stale V C s _ k VE L E).
+Qed.
+
+Lemma release_core_exit V C s p j s' r :
+  InvA C s -> core V C s (Release p j) = Some (s', r) ->
   s_disk s' j = Absent /\ p_cache (s_procs s' p) j = None /\
   p_avail (s_procs s' p) = c_total C - held_sum C s' /\
   ((j_ph (s_jobs s j) = Holding /\ j_ph (s_jobs s' j) = Idle) \/
    (j_ph (s_jobs s j) = Ended /\ j_ph (s_jobs s' j) = Done)).
 Proof.
-  intros V C s p j s' r R H. assert (I := reach_invA V C s R). simpl in H.
+  intros I H. simpl in H.
   destruct (match j_ph (s_jobs s j) with Holding => Some Idle | Ended => Some Done | _ => None end) as [ph'|] eqn:NPH; try discriminate.
   open_guard H. split_and G. apply lock_free_None in G1. apply Nat.eqb_eq in G3. subst p.
   set (p := c_owner C j) in *.
   assert (PG := good_all C s I p).
-  destruct (recount_facts C s (s_procs s p) I G1 PG) as [R1 [R2 [R3 R4]]].
-  assert (RG := recount_good C s (s_procs s p) I G1 PG).
-  assert (RA := recount_avail C s (s_procs s p) I G1 PG).
+  destruct (recount_facts C s (s_procs s p) I G0 PG) as [R1 [R2 [R3 R4]]].
+  assert (RG := recount_good C s (s_procs s p) I G0 PG).
+  assert (RA := recount_avail C s (s_procs s p) I G0 PG).
   assert (PJ : (j_ph (s_jobs s j) = Holding /\ ph' = Idle) \/ (j_ph (s_jobs s j) = Ended /\ ph' = Done)).
   { destruct (j_ph (s_jobs s j)); inversion NPH; auto. }
   remember (recount C s (s_procs s p)) as pr eqn:EPR. clear EPR.
   destruct (p_cache pr j) as [c|] eqn:PC.
   - assert (HCJ : p_cache pr j <> None) by congruence.
-    destruct (R1 j HCJ) as [c0 DJ]. rewrite DJ in H. simpl in H. inversion H; subst; clear H. simpl.
+    assert (DJ := R1 j HCJ). assert (PRS : is_present (s_disk s j) = true) by (destruct (s_disk s j); simpl; congruence).
+    rewrite PRS in H. inversion H; subst; clear H. simpl.
     assert (Hc : c = c_cnt C j) by (apply (RG j c PC)).
     assert (Hjn : (j < c_n C)%nat) by (apply (RG j c PC)).
     rewrite upd_same, emit_cache, emit_avail, upd_same, notify_ph, upd_same. simpl. rewrite upd_same.
     repeat split; auto.
     + rewrite RA. match goal with |- _ = c_total C - held_sum C ?S' => rewrite (held_sum_set C s S' j) end; simpl; auto.
-      * unfold held; simpl. rewrite upd_same, DJ. lia.
+      * unfold held; simpl. rewrite upd_same. destruct (s_disk s j); try congruence; lia.
       * intros k Hk. apply upd_other; auto.
   - inversion H; subst; clear H. simpl. rewrite upd_same.
     assert (DJ : s_disk s j = Absent).
-    { destruct (s_disk s j) eqn:DJ; auto.
-      - exfalso. eapply no_empty; eauto.
-      - rewrite (R2 j c DJ) in PC. discriminate. }
+    { destruct (s_disk s j) eqn:DJ; auto; rewrite (R2 j) in PC by congruence; discriminate. }
     repeat split; auto.
     + destruct (v_notify V); rewrite ?notify_ph, upd_same; simpl; destruct PJ as [[P1 P2]|[P1 P2]]; subst; auto.
+Qed.
+
+Theorem release_on_every_exit : forall V C s p j s' r,
+  v_fire V = true -> reachable V C s -> step V C s (Release p j) = Some (s', r) ->
+  s_disk s' j = Absent /\ p_cache (s_procs s' p) j = None /\
+  p_avail (s_procs s' p) = c_total C - held_sum C s' /\
+  ((j_ph (s_jobs s j) = Holding /\ j_ph (s_jobs s' j) = Idle) \/
+   (j_ph (s_jobs s j) = Ended /\ j_ph (s_jobs s' j) = Done)).
+Proof.
+  intros V C s p j s' r VFI R H. assert (I := reach_invA V C s VFI R).
+  change (step V C s (Release p j)) with (core V C (sweep V C s (s_procs s p)) (Release p j)) in H.
+  assert (X := release_core_exit V C _ p j s' r (invA_sweep V C s (s_procs s p) I) H).
+  rewrite sweep_jobs in X. exact X.
 Qed.
 
 Theorem observer_survives : forall C s p,
@@ -1507,7 +1861,7 @@ Lemma quiescent_cache_empty C s p :
   cnt_pos C -> reachable VF C s -> quiescent s -> p_alive (s_procs s p) = true ->
   forall k, p_cache (s_procs s p) k = None.
 Proof.
-  intros NP R Q A k. assert (I := reach_invA VF C s R). assert (B := reach_invB C s NP R).
+  intros NP R Q A k. assert (I := reach_invA VF C s eq_refl R). assert (B := reach_invB C s NP R).
   destruct (p_cache (s_procs s p) k) eqn:PC; auto. exfalso.
   assert (HC : p_cache (s_procs s p) k <> None) by congruence.
   destruct Q as [Q1 Q2]. destruct (Q1 p A) as [W E]. specialize (E (b_obs _ _ B p A)).
@@ -1527,7 +1881,7 @@ Theorem idle_full : forall C s,
      j_ph (s_jobs s k) = Ended /\ j_orph (s_jobs s k) = true /\
      forall q, p_alive (s_procs s q) = true -> p_cache (s_procs s q) k = None).
 Proof.
-  intros C s NP R Q. assert (I := reach_invA VF C s R). assert (B := reach_invB C s NP R). split.
+  intros C s NP R Q. assert (I := reach_invA VF C s eq_refl R). assert (B := reach_invB C s NP R). split.
   - intros p A. assert (E := quiescent_cache_empty C s p NP R Q A). split; auto.
     rewrite (b_avail _ _ B p A). unfold cache_sum. rewrite sumf_zero; [lia|]. intros k _. rewrite E. reflexivity.
   - intros k D. destruct (quiescent_disk C s k I Q D) as [P O]. repeat split; auto.
@@ -1555,6 +1909,52 @@ Proof.
   - apply W. apply CE.
 Qed.
 
+(* possibility: in a quiescent state with an empty directory every job of a live scheduler
+   whose request fits CAN be launched at once: acquire succeeds, the file is written, the
+   process started                                                                        *)
+Theorem launch_possible : forall C s p j,
+  cnt_pos C -> reachable VF C s -> quiescent s -> (forall k, s_disk s k = Absent) ->
+  p_alive (s_procs s p) = true -> (j < c_n C)%nat -> c_owner C j = p ->
+  j_ph (s_jobs s j) = Idle -> j_orph (s_jobs s j) = false -> c_cnt C j <= c_total C ->
+  exists s', run VF C s [Acquire p j; WriteF j; Launch j] = Some s' /\ j_ph (s_jobs s' j) = Running /\
+             s_disk s' j = Written (c_cnt C j).
+Proof.
+  intros C s p j NP R Q DE A Hj O P Or FIT.
+  assert (I := reach_invA VF C s eq_refl R).
+  assert (L : s_lock s = None).
+  { destruct (s_lock s) as [k|] eqn:LK; auto. destruct (a_lock1 _ _ I k LK) as [X _].
+    destruct Q as [_ Q]. destruct (Q k) as [E|[E|[E _]]]; congruence. }
+  assert (OK : j_ok (s_jobs s j) = true).
+  { destruct (j_ok (s_jobs s j)) eqn:K; auto. exfalso.
+    apply (eventual_launch C s p j NP R Q (observer_survives C s p NP R A)).
+    unfold waiting_fits. specialize (NP j). repeat split; auto; lia. }
+  set (s0 := sweep VF C s (s_procs s p)).
+  assert (I0 : InvA C s0) by (apply invA_sweep; auto).
+  assert (D0 : forall k, s_disk s0 k = Absent).
+  { intros k. destruct (sweep_disk VF C s (s_procs s p) k) as [E|[E _]]; fold s0 in E; rewrite E; auto. }
+  assert (P0 : parsable C s0 (s_procs s0 p) = true) by (apply pre_parsable; auto).
+  assert (AV : p_avail (recount C s0 (s_procs s0 p)) = c_total C).
+  { rewrite (recount_avail C s0 _ I0 P0 (good_all C s0 I0 p)). unfold held_sum. rewrite sumf_zero; [lia|].
+    intros k _. unfold held. rewrite D0. reflexivity. }
+  assert (S1 : exists s1, step VF C s (Acquire p j) = Some (s1, ROk) /\ s_lock s1 = Some j /\
+                          j_ph (s_jobs s1 j) = Creating /\ j_orph (s_jobs s1 j) = false /\ s_disk s1 j = Empty).
+  { change (step VF C s (Acquire p j)) with (core VF C s0 (Acquire p j)). simpl.
+    unfold s0 at 1 2 3 4 5. rewrite sweep_alive, sweep_jobs, A, O, Nat.eqb_refl, P, Or, OK. fold s0.
+    assert (LT : (j <? c_n C)%nat = true) by (apply Nat.ltb_lt; auto). rewrite LT.
+    unfold lock_free. unfold s0 at 1. rewrite sweep_lock, L. fold s0. rewrite P0. simpl.
+    rewrite AV. assert (LE : (c_total C <? c_cnt C j) = false) by lia. rewrite LE.
+    eexists. split; [reflexivity|]. simpl. rewrite !upd_same. simpl. unfold s0. rewrite sweep_jobs. auto. }
+  destruct S1 as [s1 [E1 [L1 [P1 [O1 DS1]]]]].
+  assert (S2 : exists s2, step VF C s1 (WriteF j) = Some (s2, ROk) /\ j_ph (s_jobs s2 j) = Holding /\
+                          j_orph (s_jobs s2 j) = false /\ s_disk s2 j = Written (c_cnt C j)).
+  { simpl. rewrite L1, Nat.eqb_refl, DS1. cbn [is_present]. eexists. split; [reflexivity|]. simpl. rewrite !upd_same. simpl. auto. }
+  destruct S2 as [s2 [E2 [P2 [O2 D2]]]].
+  assert (S3 : exists s3, step VF C s2 (Launch j) = Some (s3, ROk) /\ j_ph (s_jobs s3 j) = Running /\ s_disk s3 j = s_disk s2 j).
+  { simpl. rewrite P2, O2. eexists. split; [reflexivity|]. simpl. rewrite upd_same. auto. }
+  destruct S3 as [s3 [E3 [P3 D3]]].
+  exists s3. cbn [run]. rewrite E1, E2, E3. split; auto. split; auto. congruence.
+Qed.
+
 (* a process that knows the file of a job whose scheduler is dead has a watcher thread for it
    (or is about to drop a stale entry for that name) *)
 Theorem crash_reclaim : forall C s q k,
@@ -1569,32 +1969,36 @@ Qed.
 (* ... that thread can run as soon as the job has ended - orderly (pid file removed) or
    killed (stale pid file left behind) - and then the file is gone *)
 Theorem crash_reclaim_fires : forall V C s q k,
-  reachable V C s ->
+  v_fire V = true -> reachable V C s ->
   p_alive (s_procs s q) = true -> In k (p_wat (s_procs s q)) -> j_ph (s_jobs s k) = Ended ->
   exists s', step V C s (Fire q k) = Some (s', ROk) /\ s_disk s' k = Absent.
 Proof.
-  intros V C s q k R A W P. assert (L := reach_invL V C s R). simpl. rewrite A. apply mem_In in W. rewrite W. simpl.
+  intros V C s q k VFI R A W P. assert (L := reach_invL V C s VFI R). simpl. rewrite A. apply mem_In in W. rewrite W. simpl.
   assert (WF : watcher_can_finish (s_jobs s k) = true).
   { unfold watcher_can_finish. rewrite P. simpl.
     destruct (j_lock (s_jobs s k)) eqn:LK; [|simpl; destruct (j_pid (s_jobs s k)); reflexivity].
     apply (l_unlocked _ L) in LK. destruct LK; congruence. }
-  rewrite WF.
+  rewrite WF, VFI.
   destruct (is_present (s_disk s k)) eqn:PR; eexists; split; eauto; simpl.
   - apply upd_same.
   - destruct (s_disk s k); simpl in PR; congruence.
 Qed.
 
-(* ... and any process that (re)starts watches every file it finds *)
-Theorem crash_reclaim_restart : forall V C s p s' r k,
-  reachable V C s -> step V C s (Start p) = Some (s', r) -> s_disk s k <> Absent ->
+(* ... and any process that (re)starts watches every written file it finds (an unwritten one
+   is removed by the repaired _update, see start_reclaims) *)
+Theorem crash_reclaim_restart : forall V C s p s' k c,
+  v_fire V = true -> reachable V C s -> step V C s (Start p) = Some (s', ROk) -> s_disk s k = Written c ->
   In k (p_wat (s_procs s' p)) /\ p_alive (s_procs s' p) = true.
 Proof.
-  intros V C s p s' r k R H D. assert (I := reach_invA V C s R). simpl in H. open_guard H. split_and G.
-  apply lock_free_None in G1. inversion H; subst; clear H. simpl. rewrite upd_same.
+  intros V C s p s' k c VFI R H D. assert (I := reach_invA V C s VFI R).
+  change (step V C s (Start p)) with (core V C (sweep V C s fresh_proc) (Start p)) in H.
+  assert (I0 := invA_sweep V C s fresh_proc I).
+  assert (D0 : s_disk (sweep V C s fresh_proc) k = Written c).
+  { destruct (sweep_disk V C s fresh_proc k) as [E|[_ [E _]]]; congruence. }
+  simpl in H. open_start H ltac:(idtac).
+  split_and G. inversion H; subst; clear H. simpl. rewrite upd_same.
   split; [|reflexivity]. rewrite recount_wat. simpl.
-  destruct (s_disk s k) eqn:DK; try congruence.
-  - exfalso. eapply no_empty; eauto.
-  - eapply new_names_In; eauto. apply (a_disk _ _ I). congruence.
+  eapply new_names_In; eauto. apply (a_disk _ _ I0). congruence.
 Qed.
 
 (* ====== part F: witnesses of the refutations; satisfiability of the hypotheses *)
@@ -1632,9 +2036,9 @@ Ltac quiescent_2 :=
   | intros j; destruct j as [|[|[|j]]]; vm_compute; auto ].
 
 Theorem observer_death_refuted : exists C tr s p j,
-  run VL C init tr = Some s /\ quiescent s /\ waiting_fits C s p j /\ p_obs (s_procs s p) = false.
+  run V_no_parse C init tr = Some s /\ quiescent s /\ waiting_fits C s p j /\ p_obs (s_procs s p) = false.
 Proof.
-  exists C1, tr1, (final VL C1 tr1), 1%nat, 1%nat.
+  exists C1, tr1, (final V_no_parse C1 tr1), 1%nat, 1%nat.
   split; [apply final_run; vm_compute; reflexivity|].
   split; [quiescent_2|].
   split; [|vm_compute; reflexivity].
@@ -1648,19 +2052,9 @@ Definition tr2 := [Start 0; Start 1; Acquire 0 0; WriteF 0; Acquire 0 1; Deliver
                    JobEnds 0 0; Fire 1 0; Release 0 0; Deliver 0 0; Deliver 0 0; Deliver 0 0; Deliver 1 0]%nat.
 
 Theorem release_unnotified_refuted : exists C tr s p j,
-  run VL C init tr = Some s /\ quiescent s /\ waiting_fits C s p j /\ p_obs (s_procs s p) = true.
+  run V_no_notify C init tr = Some s /\ quiescent s /\ waiting_fits C s p j /\ p_obs (s_procs s p) = true.
 Proof.
-  exists C2, tr2, (final VL C2 tr2), 0%nat, 1%nat.
-  split; [apply final_run; vm_compute; reflexivity|].
-  split; [quiescent_2|].
-  split; [|vm_compute; reflexivity].
-  unfold waiting_fits. repeat split; try (vm_compute; reflexivity); simpl; lia.
-Qed.
-(* the other two repairs alone do not remove it *)
-Theorem release_unnotified_refuted_alone : exists C tr s p j,
-  run (mkV true true false true) C init tr = Some s /\ quiescent s /\ waiting_fits C s p j /\ p_obs (s_procs s p) = true.
-Proof.
-  exists C2, tr2, (final (mkV true true false true) C2 tr2), 0%nat, 1%nat.
+  exists C2, tr2, (final V_no_notify C2 tr2), 0%nat, 1%nat.
   split; [apply final_run; vm_compute; reflexivity|].
   split; [quiescent_2|].
   split; [|vm_compute; reflexivity].
@@ -1669,12 +2063,12 @@ Qed.
 
 (* 4. the job of a dead scheduler ends; the next scheduler's __init__ counts its token file,
       the watcher thread started by that _update deletes the file before the directory watch
-      exists: no event ever tells, job 1 is WAITING for ever (the other repairs applied)    *)
+      exists: no event ever tells, job 1 is WAITING for ever                               *)
 Definition tr6 := [Start 0; Acquire 0 0; WriteF 0; Launch 0; Kill 0; JobEnds 0 0; StartRace 1 0]%nat.
 Theorem restart_race_refuted : exists C tr s p j,
-  run (mkV true true true false) C init tr = Some s /\ quiescent s /\ waiting_fits C s p j /\ p_obs (s_procs s p) = true.
+  run V_no_watch C init tr = Some s /\ quiescent s /\ waiting_fits C s p j /\ p_obs (s_procs s p) = true.
 Proof.
-  exists C1, tr6, (final (mkV true true true false) C1 tr6), 1%nat, 1%nat.
+  exists C1, tr6, (final V_no_watch C1 tr6), 1%nat, 1%nat.
   split; [apply final_run; vm_compute; reflexivity|].
   split; [quiescent_2|].
   split; [|vm_compute; reflexivity].
@@ -1687,12 +2081,62 @@ Definition C3 := mkC 2 [0]%nat [1].
 Definition tr3 := [Start 0; Start 1; Acquire 0 0; WriteF 0; Deliver 1 0; Deliver 1 0; Launch 0; JobEnds 0 0;
                    Release 0 0; Deliver 1 0; Fire 1 0; Deliver 0 0; Deliver 0 0; Deliver 0 0]%nat.
 Theorem idle_overfull_refuted : exists C tr s p,
-  run VL C init tr = Some s /\ quiescent s /\ p_alive (s_procs s p) = true /\ p_obs (s_procs s p) = true /\
+  run V_no_count C init tr = Some s /\ quiescent s /\ p_alive (s_procs s p) = true /\ p_obs (s_procs s p) = true /\
   c_total C < p_avail (s_procs s p).
 Proof.
-  exists C3, tr3, (final VL C3 tr3), 1%nat.
+  exists C3, tr3, (final V_no_count C3 tr3), 1%nat.
   split; [apply final_run; vm_compute; reflexivity|].
   split; [quiescent_2|].
+  repeat split; vm_compute; reflexivity.
+Qed.
+
+(* 5. scheduler 0 is killed between open() and write() of its token file: the empty file stays;
+      from then on _update raises in every process: a new scheduler cannot be started, and the
+      READY job 1 of the live scheduler 1, whose request fits, can never take the token      *)
+Transparent parsable.
+Lemma start_raises V C s p :
+  v_empty V = false -> p_alive (s_procs s p) = false -> s_lock s = None -> parsable C s fresh_proc = false ->
+  step V C s (Start p) = Some (s, RRaised).
+Proof.
+  intros VE A L P. change (step V C s (Start p)) with (core V C (sweep V C s fresh_proc) (Start p)).
+  unfold sweep. rewrite VE. simpl. rewrite A. unfold lock_free. rewrite L. simpl.
+  change (mkProc true 0 (fun _ => None) true [] []) with fresh_proc. rewrite P. reflexivity.
+Qed.
+Lemma acquire_blocked V C s p j :
+  v_empty V = false -> parsable C s (s_procs s p) = false -> step V C s (Acquire p j) = None.
+Proof.
+  intros VE P. change (step V C s (Acquire p j)) with (core V C (sweep V C s (s_procs s p)) (Acquire p j)).
+  unfold sweep. rewrite VE. simpl. rewrite P. rewrite !andb_false_r. reflexivity.
+Qed.
+Opaque parsable.
+
+Definition tr8 := [Start 0; Start 1; Acquire 0 0; Kill 0; Deliver 1 0]%nat.
+Theorem kill_in_create_refuted : exists C tr s,
+  run V_no_empty C init tr = Some s /\ quiescent s /\
+  (* job 1 of the live scheduler 1 is READY and its request fits the (unused) token ... *)
+  p_alive (s_procs s 1) = true /\ j_ph (s_jobs s 1) = Idle /\ j_ok (s_jobs s 1) = true /\ c_owner C 1%nat = 1%nat /\
+  1 <= c_cnt C 1%nat <= c_total C /\ held_sum C s = c_cnt C 0%nat /\ j_ph (s_jobs s 0) = Ended /\
+  (* ... but acquire raises, and so does the start of any new scheduler *)
+  step V_no_empty C s (Acquire 1 1) = None /\ step V_no_empty C s (Start 0) = Some (s, RRaised).
+Proof.
+  exists C1, tr8, (final V_no_empty C1 tr8).
+  split; [apply final_run; vm_compute; reflexivity|].
+  split; [quiescent_2|].
+  repeat split; try (vm_compute; reflexivity); try (simpl; lia).
+Qed.
+
+(* 6. the pinned watcher thread of process 1 for job 0 leaves the job lock after an aborted start
+      of job 0 (no pid file: "job finished"); job 0 starts again and runs; the thread then deletes
+      "its" file by name: job 0 runs without a token file, job 1 is granted the same unit     *)
+Definition tr9 := [Start 0; Start 1; Acquire 0 0; WriteF 0; Deliver 1 0; Release 0 0; Fire 1 0; Acquire 0 0; WriteF 0;
+                   Launch 0; FireDelete 1 0; Acquire 1 1; WriteF 1; Launch 1]%nat.
+Theorem stale_watcher_refuted : exists C tr s,
+  run V_no_fire C init tr = Some s /\
+  j_ph (s_jobs s 0) = Running /\ s_disk s 0 = Absent /\ j_ph (s_jobs s 1) = Running /\
+  c_total C < sumf (c_n C) (fun j => match j_ph (s_jobs s j) with Running => c_cnt C j | _ => 0 end).
+Proof.
+  exists C1, tr9, (final V_no_fire C1 tr9).
+  split; [apply final_run; vm_compute; reflexivity|].
   repeat split; vm_compute; reflexivity.
 Qed.
 
@@ -1765,6 +2209,29 @@ Proof.
   split; [apply final_reachable; vm_compute; reflexivity|].
   split; [quiescent_2|]. split; vm_compute; reflexivity.
 Qed.
+
+(* start_enabled / start_reclaims / launch_possible: on the repaired code the schedule of
+   kill_in_create_refuted leaves a usable token: scheduler 0 can be started again (the empty
+   file is removed), and job 1 is launched *)
+Example ex_kill_in_create_repaired :
+  reachable VF C1 (final VF C1 tr8) /\ s_disk (final VF C1 tr8) 0 = Empty /\ s_lock (final VF C1 tr8) = None /\
+  is_some (run VF C1 (final VF C1 tr8) [Start 0; Acquire 1 1; WriteF 1; Launch 1]%nat) = true /\
+  s_disk (final VF C1 (tr8 ++ [Start 0])%nat) 0 = Absent /\
+  j_ph (s_jobs (final VF C1 (tr8 ++ [Acquire 1 1; WriteF 1; Launch 1])%nat) 1) = Running.
+Proof.
+  split; [apply final_reachable; vm_compute; reflexivity|]. repeat split; vm_compute; reflexivity.
+Qed.
+
+(* the repaired watcher: the schedule of stale_watcher_refuted without the separate delete *)
+Example ex_stale_watcher_repaired :
+  reachable VF C1 (final VF C1 [Start 0; Start 1; Acquire 0 0; WriteF 0; Deliver 1 0; Release 0 0; Fire 1 0; Acquire 0 0; WriteF 0; Launch 0]%nat) /\
+  step VF C1 (final VF C1 [Start 0; Start 1; Acquire 0 0; WriteF 0; Deliver 1 0; Release 0 0; Fire 1 0; Acquire 0 0; WriteF 0; Launch 0]%nat) (FireDelete 1 0) = None.
+Proof. split; [apply final_reachable; vm_compute; reflexivity|vm_compute; reflexivity]. Qed.
+
+(* a finished job identity submitted again *)
+Example ex_resubmit :
+  j_ph (s_jobs (final VF C4 [Start 0; Acquire 0 0; WriteF 0; Launch 0; JobEnds 0 1; Release 0 0; Resubmit 0 0; Acquire 0 0]%nat) 0) = Creating.
+Proof. vm_compute. reflexivity. Qed.
 
 (* capacity_inproc *)
 Definition pcnt := fun j : nat => nth j [1; 2] 1.
